@@ -8,7 +8,7 @@
                                                     d/de z(correct_pva(pva, e x)) at 0  =  - H x          *)
 From Coq Require Import Reals Lra Lia.
 From Coquelicot Require Import Coquelicot.
-From PV Require Import Base.RealTac Spec.LibSpecs Gen.Util Gen.Transform Gen.ErrState.
+From PV Require Import Base.RealTac Spec.LibSpecs Spec.Ellipsoid Gen.Util Gen.Transform Gen.ErrState.
 From PV Require Import Proofs.To180Proofs Proofs.C16Proofs.
 Open Scope R_scope.
 
@@ -887,6 +887,275 @@ Ltac trig_abbrev roll pitch heading :=
   assert (Hp : sp * sp = 1 - cp * cp) by (pose proof (sc1 (pitch * (PI / 180))); unfold sp, cp; lra);
   assert (Hh : sh * sh = 1 - ch * ch) by (pose proof (sc1 (heading * (PI / 180))); unfold sh, ch; lra).
 
+(** ** A.4  geodesy of the generated position arithmetic, independent of how the source spells it
+
+    Every generated function that moves a position by metres (perturb_lla inside correct_pva, perturb_pva, the
+    position simulator) or differences two positions in metres (compute_lla_difference inside Position,
+    compute_state_difference) is first CHARACTERISED in terms of the specification radii of Spec/Ellipsoid.v
+    (proved by canonicalisation + field, so a respelling of the source does not matter); the analysis below
+    only uses these characterisations. *)
+Definition Rm (l : R) : R := R_meridian A_ E2_ (l * (PI / 180)).
+Definition Rt (l : R) : R := R_transverse A_ E2_ (l * (PI / 180)).
+(** degrees of latitude / longitude per metre north / east at (lat, alt) *)
+Definition KN (lat alt : R) : R := / (Rm lat + alt) * (180 / PI).
+Definition KE (lat alt : R) : R := / ((Rt lat + alt) * cos (lat * (PI / 180))) * (180 / PI).
+(** metres north / east per degree at (latm, altm) *)
+Definition QN (latm altm : R) : R := (Rm latm + altm) * (PI / 180).
+Definition QE (latm altm : R) : R :=
+  (Rt latm + altm) * sqrt (1 - sin (latm * (PI / 180)) * sin (latm * (PI / 180))) * (PI / 180).
+
+Lemma KN_QN lat alt : -6000000 < alt -> KN lat alt * QN lat alt = 1.
+Proof.
+  intro Ha. unfold KN, QN, Rm. pose proof (R_meridian_ge (lat * (PI / 180))). pose proof PI_neq0.
+  field. split; lra.
+Qed.
+
+Lemma KE_QE lat alt : -90 < lat < 90 -> -6000000 < alt -> KE lat alt * QE lat alt = 1.
+Proof.
+  intros Hl Ha. unfold KE, QE, Rt. pose proof (R_transverse_ge (lat * (PI / 180))). pose proof PI_neq0.
+  pose proof (cos_d2r_pos lat Hl).
+  rewrite (sqrt_1msin2 (lat * (PI / 180))) by lra. field. repeat split; lra.
+Qed.
+
+Lemma QN_ex_derive (l a : R -> R) t : ex_derive l t -> ex_derive a t -> ex_derive (fun e => QN (l e) (a e)) t.
+Proof.
+  intros Hl Ha. unfold QN, Rm.
+  assert (Hm : ex_derive (fun e => R_meridian A_ E2_ (l e * (PI / 180))) t).
+  { apply (R_meridian_ex_derive (fun e => l e * (PI / 180))). auto_derive. exact Hl. }
+  set (m := fun e => R_meridian A_ E2_ (l e * (PI / 180))) in *.
+  change (ex_derive (fun e => (m e + a e) * (PI / 180)) t). auto_derive. repeat split; assumption.
+Qed.
+
+Lemma QE_ex_derive (l a : R -> R) t : -90 < l t < 90 ->
+  ex_derive l t -> ex_derive a t -> ex_derive (fun e => QE (l e) (a e)) t.
+Proof.
+  intros Hr Hl Ha. unfold QE, Rt.
+  assert (Hm : ex_derive (fun e => R_transverse A_ E2_ (l e * (PI / 180))) t).
+  { apply (R_transverse_ex_derive (fun e => l e * (PI / 180))). auto_derive. exact Hl. }
+  set (m := fun e => R_transverse A_ E2_ (l e * (PI / 180))) in *.
+  change (ex_derive (fun e => (m e + a e) *
+            sqrt (1 - sin (l e * (PI / 180)) * sin (l e * (PI / 180))) * (PI / 180)) t).
+  pose proof (cos_d2r_pos (l t) Hr) as Hc. pose proof (sc1 (l t * (PI / 180))) as Hsc.
+  auto_derive. repeat split; try assumption. nra.
+Qed.
+
+(* the characterisation proofs: unfold everything generated, canonicalise, field *)
+Ltac geo_field lat :=
+  unfold KN, KE, QN, QE, Rm, Rt, R_meridian, R_transverse, W2, A_, E2_; canon;
+  rewrite ?(sqrt_1msin2 (lat * (PI / 180))) by (apply cos_d2r_nonneg; lra);
+  let phi := fresh "phi" in set (phi := lat * (PI / 180)) in *; with_q phi;
+  match goal with q := sqrt _ |- _ => radii_facts q;
+    splits; first [ ring | field; radii_side q ] end.
+
+Lemma correct3d_lla_char lat lon alt VN VE VD roll pitch heading x0 x1 x2 x3 x4 x5 x6 x7 x8 :
+  -90 < lat < 90 -> -6000000 < alt ->
+  correct3d_lat lat lon alt VN VE VD roll pitch heading x0 x1 x2 x3 x4 x5 x6 x7 x8 = lat - x0 * KN lat alt /\
+  correct3d_lon lat lon alt VN VE VD roll pitch heading x0 x1 x2 x3 x4 x5 x6 x7 x8 = lon - x1 * KE lat alt /\
+  correct3d_alt lat lon alt VN VE VD roll pitch heading x0 x1 x2 x3 x4 x5 x6 x7 x8 = alt + x2.
+Proof.
+  intros Hlat Halt. pose proof (cos_d2r_pos lat Hlat) as Hc.
+  unfold correct3d_lat, correct3d_lon, correct3d_alt. repeat autounfold with correct3d_db. geo_field lat.
+Qed.
+
+Lemma correct2d_lla_char lat lon alt VN VE VD roll pitch heading x0 x1 x2 x3 x4 x5 x6 :
+  -90 < lat < 90 -> -6000000 < alt ->
+  correct2d_lat lat lon alt VN VE VD roll pitch heading x0 x1 x2 x3 x4 x5 x6 = lat - x0 * KN lat alt /\
+  correct2d_lon lat lon alt VN VE VD roll pitch heading x0 x1 x2 x3 x4 x5 x6 = lon - x1 * KE lat alt /\
+  correct2d_alt lat lon alt VN VE VD roll pitch heading x0 x1 x2 x3 x4 x5 x6 = alt.
+Proof.
+  intros Hlat Halt. pose proof (cos_d2r_pos lat Hlat) as Hc.
+  unfold correct2d_lat, correct2d_lon, correct2d_alt. repeat autounfold with correct2d_db. geo_field lat.
+Qed.
+
+Lemma perturb_pva_lla_char lat lon alt VN VE VD roll pitch heading e0 e1 e2 e3 e4 e5 e6 e7 e8 :
+  -90 < lat < 90 -> -6000000 < alt ->
+  perturb_pva_lat lat lon alt VN VE VD roll pitch heading e0 e1 e2 e3 e4 e5 e6 e7 e8 = lat + e0 * KN lat alt /\
+  perturb_pva_lon lat lon alt VN VE VD roll pitch heading e0 e1 e2 e3 e4 e5 e6 e7 e8 = lon + e1 * KE lat alt /\
+  perturb_pva_alt lat lon alt VN VE VD roll pitch heading e0 e1 e2 e3 e4 e5 e6 e7 e8 = alt - e2.
+Proof.
+  intros Hlat Halt. pose proof (cos_d2r_pos lat Hlat) as Hc.
+  unfold perturb_pva_lat, perturb_pva_lon, perturb_pva_alt. repeat autounfold with perturb_pva_db. geo_field lat.
+Qed.
+
+Lemma sim_pos_char lat lon alt VN VE VD roll pitch heading s n0 n1 n2 :
+  -90 < lat < 90 -> -6000000 < alt ->
+  sim_pos_lat lat lon alt VN VE VD roll pitch heading s n0 n1 n2 = lat + s * n0 * KN lat alt /\
+  sim_pos_lon lat lon alt VN VE VD roll pitch heading s n0 n1 n2 = lon + s * n1 * KE lat alt /\
+  sim_pos_alt lat lon alt VN VE VD roll pitch heading s n0 n1 n2 = alt - s * n2.
+Proof.
+  intros Hlat Halt. pose proof (cos_d2r_pos lat Hlat) as Hc.
+  unfold sim_pos_lat, sim_pos_lon, sim_pos_alt. repeat autounfold with sim_pos_db. geo_field lat.
+Qed.
+
+(** compute_state_difference, position rows: degrees times the metres-per-degree at the mid point *)
+Lemma state_diff_ned_char lat1 lon1 alt1 VN1 VE1 VD1 roll1 pitch1 heading1
+                          lat2 lon2 alt2 VN2 VE2 VD2 roll2 pitch2 heading2 :
+  let latm := 1 / 2 * (lat1 + lat2) in let altm := 1 / 2 * (alt1 + alt2) in
+  state_diff_north lat1 lon1 alt1 VN1 VE1 VD1 roll1 pitch1 heading1 lat2 lon2 alt2 VN2 VE2 VD2 roll2 pitch2 heading2
+    = (lat1 - lat2) * QN latm altm /\
+  state_diff_east lat1 lon1 alt1 VN1 VE1 VD1 roll1 pitch1 heading1 lat2 lon2 alt2 VN2 VE2 VD2 roll2 pitch2 heading2
+    = (lon1 - lon2) * QE latm altm /\
+  state_diff_down lat1 lon1 alt1 VN1 VE1 VD1 roll1 pitch1 heading1 lat2 lon2 alt2 VN2 VE2 VD2 roll2 pitch2 heading2
+    = alt2 - alt1.
+Proof.
+  cbv zeta. unfold state_diff_north, state_diff_east, state_diff_down. repeat autounfold with state_diff_db.
+  unfold QN, QE, Rm, Rt, R_meridian, R_transverse, W2, A_, E2_.
+  canon_angle (1 / 2 * (lat1 + lat2) * (PI / 180)). canon.
+  set (phim := 1 / 2 * (lat1 + lat2) * (PI / 180)). with_q phim.
+  split; [|split]; [field; lra | field; lra | ring].
+Qed.
+
+(** compute_lla_difference (as used by Position), same form *)
+Lemma lla_diff_char lat1 lon1 alt1 lat2 lon2 alt2 :
+  let latm := 1 / 2 * (lat1 + lat2) in let altm := 1 / 2 * (alt1 + alt2) in
+  compute_lla_difference_d0 lat1 lon1 alt1 lat2 lon2 alt2 = (lat1 - lat2) * QN latm altm /\
+  compute_lla_difference_d1 lat1 lon1 alt1 lat2 lon2 alt2 = (lon1 - lon2) * QE latm altm /\
+  compute_lla_difference_d2 lat1 lon1 alt1 lat2 lon2 alt2 = alt2 - alt1.
+Proof.
+  cbv zeta. destruct (lla_difference_char lat1 lon1 alt1 lat2 lon2 alt2) as [H0 [H1 H2]]. cbv zeta in *.
+  rewrite H0, H1, H2. unfold QN, QE, Rm, Rt. splits; ring.
+Qed.
+
+Lemma KN_ex_derive (l a : R -> R) t : ex_derive l t -> ex_derive a t -> -6000000 < a t ->
+  ex_derive (fun e => KN (l e) (a e)) t.
+Proof.
+  intros Hl Ha Hr. unfold KN, Rm.
+  assert (Hm : ex_derive (fun e => R_meridian A_ E2_ (l e * (PI / 180))) t).
+  { apply (R_meridian_ex_derive (fun e => l e * (PI / 180))). auto_derive. exact Hl. }
+  pose proof (R_meridian_ge (l t * (PI / 180))) as Hge.
+  set (m := fun e => R_meridian A_ E2_ (l e * (PI / 180))) in *.
+  change (ex_derive (fun e => / (m e + a e) * (180 / PI)) t). auto_derive.
+  repeat split; try assumption. unfold m. lra.
+Qed.
+
+Lemma KE_ex_derive (l a : R -> R) t : ex_derive l t -> ex_derive a t -> -90 < l t < 90 -> -6000000 < a t ->
+  ex_derive (fun e => KE (l e) (a e)) t.
+Proof.
+  intros Hl Ha Hlr Hr. unfold KE, Rt.
+  assert (Hm : ex_derive (fun e => R_transverse A_ E2_ (l e * (PI / 180))) t).
+  { apply (R_transverse_ex_derive (fun e => l e * (PI / 180))). auto_derive. exact Hl. }
+  pose proof (R_transverse_ge (l t * (PI / 180))) as Hge. pose proof (cos_d2r_pos (l t) Hlr) as Hc.
+  set (m := fun e => R_transverse A_ E2_ (l e * (PI / 180))) in *.
+  change (ex_derive (fun e => / ((m e + a e) * cos (l e * (PI / 180))) * (180 / PI)) t). auto_derive.
+  repeat split; try assumption. unfold m. apply Rgt_not_eq. apply Rmult_lt_0_compat; lra.
+Qed.
+
+(** e |-> e * (c * KN(lat, alt) * QN(l e, a e)) with (l, a)(0) = (lat, alt): derivative c (a shift of c metres
+    north, measured in metres again); likewise east *)
+Lemma is_derive_north (c : R) (l a : R -> R) lat alt :
+  ex_derive l 0 -> ex_derive a 0 -> l 0 = lat -> a 0 = alt -> -6000000 < alt ->
+  is_derive (fun e => e * (c * KN lat alt * QN (l e) (a e))) 0 c.
+Proof.
+  intros Hl Ha L0 A0 Hr. apply is_derive_e_times.
+  - pose proof (QN_ex_derive l a 0 Hl Ha) as HQ. set (Q := fun e => QN (l e) (a e)) in *.
+    change (ex_derive (fun e => c * KN lat alt * Q e) 0). auto_derive. exact HQ.
+  - rewrite L0, A0, Rmult_assoc, KN_QN by exact Hr. ring.
+Qed.
+
+Lemma is_derive_east (c : R) (l a : R -> R) lat alt :
+  ex_derive l 0 -> ex_derive a 0 -> l 0 = lat -> a 0 = alt -> -90 < lat < 90 -> -6000000 < alt ->
+  is_derive (fun e => e * (c * KE lat alt * QE (l e) (a e))) 0 c.
+Proof.
+  intros Hl Ha L0 A0 Hlr Hr. apply is_derive_e_times.
+  - assert (Hl0 : -90 < l 0 < 90) by (rewrite L0; exact Hlr).
+    pose proof (QE_ex_derive l a 0 Hl0 Hl Ha) as HQ. set (Q := fun e => QE (l e) (a e)) in *.
+    change (ex_derive (fun e => c * KE lat alt * Q e) 0). auto_derive. exact HQ.
+  - rewrite L0, A0, Rmult_assoc, KE_QE by assumption. ring.
+Qed.
+
+(* side goals of the two lemmas above for affine l, a *)
+Ltac affine_side := first [ auto_derive; exact I | cbv beta; try field; try lra ].
+
+(** the same facts as rewriting rules *)
+Lemma state_diff_north_eq lat1 lon1 alt1 VN1 VE1 VD1 roll1 pitch1 heading1 lat2 lon2 alt2 VN2 VE2 VD2 roll2 pitch2 heading2 :
+  state_diff_north lat1 lon1 alt1 VN1 VE1 VD1 roll1 pitch1 heading1 lat2 lon2 alt2 VN2 VE2 VD2 roll2 pitch2 heading2
+    = (lat1 - lat2) * QN (1 / 2 * (lat1 + lat2)) (1 / 2 * (alt1 + alt2)).
+Proof. exact (proj1 (state_diff_ned_char lat1 lon1 alt1 VN1 VE1 VD1 roll1 pitch1 heading1 lat2 lon2 alt2 VN2 VE2 VD2 roll2 pitch2 heading2)). Qed.
+Lemma state_diff_east_eq lat1 lon1 alt1 VN1 VE1 VD1 roll1 pitch1 heading1 lat2 lon2 alt2 VN2 VE2 VD2 roll2 pitch2 heading2 :
+  state_diff_east lat1 lon1 alt1 VN1 VE1 VD1 roll1 pitch1 heading1 lat2 lon2 alt2 VN2 VE2 VD2 roll2 pitch2 heading2
+    = (lon1 - lon2) * QE (1 / 2 * (lat1 + lat2)) (1 / 2 * (alt1 + alt2)).
+Proof. exact (proj1 (proj2 (state_diff_ned_char lat1 lon1 alt1 VN1 VE1 VD1 roll1 pitch1 heading1 lat2 lon2 alt2 VN2 VE2 VD2 roll2 pitch2 heading2))). Qed.
+Lemma lla_diff0_eq lat1 lon1 alt1 lat2 lon2 alt2 :
+  compute_lla_difference_d0 lat1 lon1 alt1 lat2 lon2 alt2 = (lat1 - lat2) * QN (1 / 2 * (lat1 + lat2)) (1 / 2 * (alt1 + alt2)).
+Proof. exact (proj1 (lla_diff_char lat1 lon1 alt1 lat2 lon2 alt2)). Qed.
+Lemma lla_diff1_eq lat1 lon1 alt1 lat2 lon2 alt2 :
+  compute_lla_difference_d1 lat1 lon1 alt1 lat2 lon2 alt2 = (lon1 - lon2) * QE (1 / 2 * (lat1 + lat2)) (1 / 2 * (alt1 + alt2)).
+Proof. exact (proj1 (proj2 (lla_diff_char lat1 lon1 alt1 lat2 lon2 alt2))). Qed.
+Lemma lla_diff2_eq lat1 lon1 alt1 lat2 lon2 alt2 :
+  compute_lla_difference_d2 lat1 lon1 alt1 lat2 lon2 alt2 = alt2 - alt1.
+Proof. exact (proj2 (proj2 (lla_diff_char lat1 lon1 alt1 lat2 lon2 alt2))). Qed.
+
+Section GeoEq.
+Variables lat lon alt VN VE VD roll pitch heading : R.
+Hypothesis Hlat : -90 < lat < 90.
+Hypothesis Halt : -6000000 < alt.
+Lemma correct3d_lat_eq x0 x1 x2 x3 x4 x5 x6 x7 x8 :
+  correct3d_lat lat lon alt VN VE VD roll pitch heading x0 x1 x2 x3 x4 x5 x6 x7 x8 = lat - x0 * KN lat alt.
+Proof. apply correct3d_lla_char; assumption. Qed.
+Lemma correct3d_lon_eq x0 x1 x2 x3 x4 x5 x6 x7 x8 :
+  correct3d_lon lat lon alt VN VE VD roll pitch heading x0 x1 x2 x3 x4 x5 x6 x7 x8 = lon - x1 * KE lat alt.
+Proof. apply correct3d_lla_char; assumption. Qed.
+Lemma correct3d_alt_eq x0 x1 x2 x3 x4 x5 x6 x7 x8 :
+  correct3d_alt lat lon alt VN VE VD roll pitch heading x0 x1 x2 x3 x4 x5 x6 x7 x8 = alt + x2.
+Proof. apply correct3d_lla_char; assumption. Qed.
+Lemma correct2d_lat_eq x0 x1 x2 x3 x4 x5 x6 :
+  correct2d_lat lat lon alt VN VE VD roll pitch heading x0 x1 x2 x3 x4 x5 x6 = lat - x0 * KN lat alt.
+Proof. apply correct2d_lla_char; assumption. Qed.
+Lemma correct2d_lon_eq x0 x1 x2 x3 x4 x5 x6 :
+  correct2d_lon lat lon alt VN VE VD roll pitch heading x0 x1 x2 x3 x4 x5 x6 = lon - x1 * KE lat alt.
+Proof. apply correct2d_lla_char; assumption. Qed.
+Lemma correct2d_alt_eq x0 x1 x2 x3 x4 x5 x6 :
+  correct2d_alt lat lon alt VN VE VD roll pitch heading x0 x1 x2 x3 x4 x5 x6 = alt.
+Proof. apply correct2d_lla_char; assumption. Qed.
+Lemma perturb_pva_lat_eq e0 e1 e2 e3 e4 e5 e6 e7 e8 :
+  perturb_pva_lat lat lon alt VN VE VD roll pitch heading e0 e1 e2 e3 e4 e5 e6 e7 e8 = lat + e0 * KN lat alt.
+Proof. apply perturb_pva_lla_char; assumption. Qed.
+Lemma perturb_pva_lon_eq e0 e1 e2 e3 e4 e5 e6 e7 e8 :
+  perturb_pva_lon lat lon alt VN VE VD roll pitch heading e0 e1 e2 e3 e4 e5 e6 e7 e8 = lon + e1 * KE lat alt.
+Proof. apply perturb_pva_lla_char; assumption. Qed.
+Lemma perturb_pva_alt_eq e0 e1 e2 e3 e4 e5 e6 e7 e8 :
+  perturb_pva_alt lat lon alt VN VE VD roll pitch heading e0 e1 e2 e3 e4 e5 e6 e7 e8 = alt - e2.
+Proof. apply perturb_pva_lla_char; assumption. Qed.
+Lemma sim_pos_lat_eq s n0 n1 n2 :
+  sim_pos_lat lat lon alt VN VE VD roll pitch heading s n0 n1 n2 = lat + s * n0 * KN lat alt.
+Proof. apply sim_pos_char; assumption. Qed.
+Lemma sim_pos_lon_eq s n0 n1 n2 :
+  sim_pos_lon lat lon alt VN VE VD roll pitch heading s n0 n1 n2 = lon + s * n1 * KE lat alt.
+Proof. apply sim_pos_char; assumption. Qed.
+Lemma sim_pos_alt_eq s n0 n1 n2 :
+  sim_pos_alt lat lon alt VN VE VD roll pitch heading s n0 n1 n2 = alt - s * n2.
+Proof. apply sim_pos_char; assumption. Qed.
+End GeoEq.
+
+Lemma locally_between (u : R -> R) lo hi : ex_derive u 0 -> lo < u 0 < hi -> locally 0 (fun e => lo < u e < hi).
+Proof.
+  intros [l Hu] [H1 H2].
+  assert (Hc : continuous u 0) by (apply (derive_cont u 0 l); exact Hu).
+  assert (L1 : locally 0 (fun e => 0 < u e - lo)).
+  { apply (locally_pos (fun e => u e - lo)); [|lra].
+    apply (continuous_minus (V := R_NormedModule) u (fun _ => lo)); [exact Hc | apply continuous_const]. }
+  assert (L2 : locally 0 (fun e => 0 < hi - u e)).
+  { apply (locally_pos (fun e => hi - u e)); [|lra].
+    apply (continuous_minus (V := R_NormedModule) (fun _ => hi) u); [apply continuous_const | exact Hc]. }
+  generalize (filter_and _ _ L1 L2). apply filter_imp. intros e [A B]. lra.
+Qed.
+
+Lemma perturb_pva_zero lat lon alt VN VE VD roll pitch heading E0 E1 E2 E3 E4 E5 E6 E7 E8 :
+  perturb_pva_lat lat lon alt VN VE VD roll pitch heading (0 * E0) (0 * E1) (0 * E2) (0 * E3) (0 * E4) (0 * E5) (0 * E6) (0 * E7) (0 * E8) = lat /\
+  perturb_pva_lon lat lon alt VN VE VD roll pitch heading (0 * E0) (0 * E1) (0 * E2) (0 * E3) (0 * E4) (0 * E5) (0 * E6) (0 * E7) (0 * E8) = lon /\
+  perturb_pva_alt lat lon alt VN VE VD roll pitch heading (0 * E0) (0 * E1) (0 * E2) (0 * E3) (0 * E4) (0 * E5) (0 * E6) (0 * E7) (0 * E8) = alt /\
+  perturb_pva_VN lat lon alt VN VE VD roll pitch heading (0 * E0) (0 * E1) (0 * E2) (0 * E3) (0 * E4) (0 * E5) (0 * E6) (0 * E7) (0 * E8) = VN /\
+  perturb_pva_VE lat lon alt VN VE VD roll pitch heading (0 * E0) (0 * E1) (0 * E2) (0 * E3) (0 * E4) (0 * E5) (0 * E6) (0 * E7) (0 * E8) = VE /\
+  perturb_pva_VD lat lon alt VN VE VD roll pitch heading (0 * E0) (0 * E1) (0 * E2) (0 * E3) (0 * E4) (0 * E5) (0 * E6) (0 * E7) (0 * E8) = VD /\
+  perturb_pva_roll lat lon alt VN VE VD roll pitch heading (0 * E0) (0 * E1) (0 * E2) (0 * E3) (0 * E4) (0 * E5) (0 * E6) (0 * E7) (0 * E8) = roll /\
+  perturb_pva_pitch lat lon alt VN VE VD roll pitch heading (0 * E0) (0 * E1) (0 * E2) (0 * E3) (0 * E4) (0 * E5) (0 * E6) (0 * E7) (0 * E8) = pitch /\
+  perturb_pva_heading lat lon alt VN VE VD roll pitch heading (0 * E0) (0 * E1) (0 * E2) (0 * E3) (0 * E4) (0 * E5) (0 * E6) (0 * E7) (0 * E8) = heading.
+Proof.
+  unfold perturb_pva_lat, perturb_pva_lon, perturb_pva_alt, perturb_pva_VN, perturb_pva_VE, perturb_pva_VD,
+    perturb_pva_roll, perturb_pva_pitch, perturb_pva_heading, Rdiv. splits; ring.
+Qed.
+
+
 Lemma is_derive_const_minus (f : R -> R) c t l :
   is_derive f t l -> is_derive (fun e => c - f e) t (- l).
 Proof.
@@ -1042,55 +1311,26 @@ Qed.
 
 Lemma diff3_north : is_derive (D3 state_diff_north) 0 (mvec 9 T x 0).
 Proof.
-  unfold D3, diff_after_correct3, along3, state_diff_north, correct3d_lat, correct3d_alt.
-  pose proof (rn_pos (lat * (PI/180)) alt Halt) as Hrn.
-  match goal with |- is_derive (fun e => (lat - (lat + - (e * x0) / ?K * (180 / PI))) * _) 0 _ =>
-    set (k := K) in * end.
-  match goal with |- is_derive (fun e => (lat - (lat + - (e * x0) / k * (180 / PI))) * @?Q e) 0 _ =>
-    apply (is_derive_ext (fun e => e * (x0 * / k * (180 / PI) * Q e)));
-    [ intro e; cbv beta; unfold Rdiv; eqR; ring | apply is_derive_e_times ]
-  end.
-  - autounfold with state_diff_db. auto_derive.
-    splits; try exact I; try (apply Rgt_not_eq); try (exact (W_pos' _)); try (exact (sqrtW_pos _)).
-  - cbv beta. autounfold with state_diff_db.
-    replace (lat + - (0 * x0) / k * (180 / PI)) with lat by (unfold Rdiv; ring).
-    try replace (alt - - (0 * x2)) with alt by ring.
-    replace (1 / 2 * (lat + lat)) with lat by field.
-    replace (1 / 2 * (alt + alt)) with alt by field.
-    subst k. autounfold with correct3d_db. unfold T, x. mat_entry. cbv [vec9].
-    match type of Hrn with 0 < ?r + alt => set (rn := r) in * end.
-    pose proof PI_neq0. field. split; [assumption | lra].
+  assert (Halt' : -6000000 < alt) by lra.
+  unfold D3, diff_after_correct3, along3.
+  apply (is_derive_ext (fun e => e * (x0 * KN lat alt *
+           QN (1 / 2 * (lat + (lat - e * x0 * KN lat alt))) (1 / 2 * (alt + (alt + e * x2)))))).
+  { intro e. rewrite state_diff_north_eq, correct3d_lat_eq, correct3d_alt_eq by assumption. eqR. ring. }
+  evar_last.
+  - apply is_derive_north; try exact Halt'; affine_side.
+  - unfold T, x. mat_entry. cbv [vec9]. ring.
 Qed.
 
 Lemma diff3_east : is_derive (D3 state_diff_east) 0 (mvec 9 T x 1).
 Proof.
-  unfold D3, diff_after_correct3, along3, state_diff_east, correct3d_lat, correct3d_lon, correct3d_alt.
-  pose proof (re_pos (lat * (PI/180)) alt Halt) as Hre.
-  pose proof (cos_d2r_pos lat Hlat) as Hcos.
-  assert (Hs : sqrt (1 - sin (lat * (PI/180)) * sin (lat * (PI/180))) = cos (lat * (PI/180)))
-    by (apply sqrt_1msin2; lra).
-  match goal with |- is_derive (fun e => (lon - (lon + - (e * x1) / ?K * (180 / PI))) * _) 0 _ =>
-    set (k := K) in * end.
-  match goal with |- is_derive (fun e => (lon - (lon + - (e * x1) / k * (180 / PI))) * @?Q e) 0 _ =>
-    apply (is_derive_ext (fun e => e * (x1 * / k * (180 / PI) * Q e)));
-    [ intro e; cbv beta; unfold Rdiv; eqR; ring | apply is_derive_e_times ]
-  end.
-  - autounfold with state_diff_db. auto_derive.
-    match goal with |- context [lat + - (0 * x0) * / ?K0 * (180 / PI)] =>
-      replace (lat + - (0 * x0) * / K0 * (180 / PI)) with lat by (unfold Rdiv; ring) end.
-    replace (1 / 2 * (lat + lat)) with lat by field.
-    splits; try exact I; try (apply Rgt_not_eq); try (exact (W_pos' _)); try (exact (sqrtW_pos _)).
-    pose proof (sc1 (lat * (PI / 180))). nra.
-  - cbv beta. autounfold with state_diff_db.
-    match goal with |- context [lat + - (0 * x0) / ?K0 * (180 / PI)] =>
-      replace (lat + - (0 * x0) / K0 * (180 / PI)) with lat by (unfold Rdiv; ring) end.
-    try replace (alt - - (0 * x2)) with alt by ring.
-    replace (1 / 2 * (lat + lat)) with lat by field.
-    replace (1 / 2 * (alt + alt)) with alt by field.
-    subst k. autounfold with correct3d_db. unfold T, x. mat_entry. cbv [vec9].
-    rewrite Hs.
-    match type of Hre with 0 < ?r + alt => set (re := r) in * end.
-    pose proof PI_neq0. field. splits; try assumption; lra.
+  assert (Halt' : -6000000 < alt) by lra.
+  unfold D3, diff_after_correct3, along3.
+  apply (is_derive_ext (fun e => e * (x1 * KE lat alt *
+           QE (1 / 2 * (lat + (lat - e * x0 * KN lat alt))) (1 / 2 * (alt + (alt + e * x2)))))).
+  { intro e. rewrite state_diff_east_eq, correct3d_lat_eq, correct3d_lon_eq, correct3d_alt_eq by assumption. eqR. ring. }
+  evar_last.
+  - apply is_derive_east; try exact Halt'; try exact Hlat; affine_side.
+  - unfold T, x. mat_entry. cbv [vec9]. ring.
 Qed.
 
 Lemma diff3_down : is_derive (D3 state_diff_down) 0 (mvec 9 T x 2).
@@ -1296,55 +1536,26 @@ Qed.
 
 Lemma diff2_north : is_derive (D2 state_diff_north) 0 (mvec 7 T x 0).
 Proof.
-  unfold D2, diff_after_correct2, along2, state_diff_north, correct2d_lat, correct2d_alt.
-  pose proof (rn_pos (lat * (PI/180)) alt Halt) as Hrn.
-  match goal with |- is_derive (fun e => (lat - (lat + - (e * x0) / ?K * (180 / PI))) * _) 0 _ =>
-    set (k := K) in * end.
-  match goal with |- is_derive (fun e => (lat - (lat + - (e * x0) / k * (180 / PI))) * @?Q e) 0 _ =>
-    apply (is_derive_ext (fun e => e * (x0 * / k * (180 / PI) * Q e)));
-    [ intro e; cbv beta; unfold Rdiv; eqR; ring | apply is_derive_e_times ]
-  end.
-  - autounfold with state_diff_db. auto_derive.
-    splits; try exact I; try (apply Rgt_not_eq); try (exact (W_pos' _)); try (exact (sqrtW_pos _)).
-  - cbv beta. autounfold with state_diff_db.
-    replace (lat + - (0 * x0) / k * (180 / PI)) with lat by (unfold Rdiv; ring).
-    try replace (alt - - (0 * x2)) with alt by ring.
-    replace (1 / 2 * (lat + lat)) with lat by field.
-    replace (1 / 2 * (alt + alt)) with alt by field.
-    subst k. autounfold with correct2d_db. unfold T, x. mat_entry. cbv [vec7].
-    match type of Hrn with 0 < ?r + alt => set (rn := r) in * end.
-    pose proof PI_neq0. field. split; [assumption | lra].
+  assert (Halt' : -6000000 < alt) by lra.
+  unfold D2, diff_after_correct2, along2.
+  apply (is_derive_ext (fun e => e * (x0 * KN lat alt *
+           QN (1 / 2 * (lat + (lat - e * x0 * KN lat alt))) (1 / 2 * (alt + (alt)))))).
+  { intro e. rewrite state_diff_north_eq, correct2d_lat_eq, correct2d_alt_eq by assumption. eqR. ring. }
+  evar_last.
+  - apply is_derive_north; try exact Halt'; affine_side.
+  - unfold T, x. mat_entry. cbv [vec7]. ring.
 Qed.
 
 Lemma diff2_east : is_derive (D2 state_diff_east) 0 (mvec 7 T x 1).
 Proof.
-  unfold D2, diff_after_correct2, along2, state_diff_east, correct2d_lat, correct2d_lon, correct2d_alt.
-  pose proof (re_pos (lat * (PI/180)) alt Halt) as Hre.
-  pose proof (cos_d2r_pos lat Hlat) as Hcos.
-  assert (Hs : sqrt (1 - sin (lat * (PI/180)) * sin (lat * (PI/180))) = cos (lat * (PI/180)))
-    by (apply sqrt_1msin2; lra).
-  match goal with |- is_derive (fun e => (lon - (lon + - (e * x1) / ?K * (180 / PI))) * _) 0 _ =>
-    set (k := K) in * end.
-  match goal with |- is_derive (fun e => (lon - (lon + - (e * x1) / k * (180 / PI))) * @?Q e) 0 _ =>
-    apply (is_derive_ext (fun e => e * (x1 * / k * (180 / PI) * Q e)));
-    [ intro e; cbv beta; unfold Rdiv; eqR; ring | apply is_derive_e_times ]
-  end.
-  - autounfold with state_diff_db. auto_derive.
-    match goal with |- context [lat + - (0 * x0) * / ?K0 * (180 / PI)] =>
-      replace (lat + - (0 * x0) * / K0 * (180 / PI)) with lat by (unfold Rdiv; ring) end.
-    replace (1 / 2 * (lat + lat)) with lat by field.
-    splits; try exact I; try (apply Rgt_not_eq); try (exact (W_pos' _)); try (exact (sqrtW_pos _)).
-    pose proof (sc1 (lat * (PI / 180))). nra.
-  - cbv beta. autounfold with state_diff_db.
-    match goal with |- context [lat + - (0 * x0) / ?K0 * (180 / PI)] =>
-      replace (lat + - (0 * x0) / K0 * (180 / PI)) with lat by (unfold Rdiv; ring) end.
-    try replace (alt - - (0 * x2)) with alt by ring.
-    replace (1 / 2 * (lat + lat)) with lat by field.
-    replace (1 / 2 * (alt + alt)) with alt by field.
-    subst k. autounfold with correct2d_db. unfold T, x. mat_entry. cbv [vec7].
-    rewrite Hs.
-    match type of Hre with 0 < ?r + alt => set (re := r) in * end.
-    pose proof PI_neq0. field. splits; try assumption; lra.
+  assert (Halt' : -6000000 < alt) by lra.
+  unfold D2, diff_after_correct2, along2.
+  apply (is_derive_ext (fun e => e * (x1 * KE lat alt *
+           QE (1 / 2 * (lat + (lat - e * x0 * KN lat alt))) (1 / 2 * (alt + (alt)))))).
+  { intro e. rewrite state_diff_east_eq, correct2d_lat_eq, correct2d_lon_eq, correct2d_alt_eq by assumption. eqR. ring. }
+  evar_last.
+  - apply is_derive_east; try exact Halt'; try exact Hlat; affine_side.
+  - unfold T, x. mat_entry. cbv [vec7]. ring.
 Qed.
 
 Lemma diff2_down : is_derive (D2 state_diff_down) 0 (mvec 7 T x 2).
@@ -2114,349 +2325,7 @@ End Meas2D.
     predicted and measured position, so H is the exact Jacobian at the linearisation point
     "measured position = predicted position" (the three measured arguments are lat lon alt below);
     away from it the two differ by a relative O(|z| / Earth radius) -- see tools/props/C06.py. *)
-Section Pos3D.
-Variables lat lon alt VN VE VD roll pitch heading : R.
-Variables x0 x1 x2 x3 x4 x5 x6 x7 x8 : R.
-Variables l0 l1 l2 sd : R.
-Hypothesis Hlat : -90 < lat < 90.
-Hypothesis Halt : -1000000 <= alt.
-Hypothesis Hroll : -180 < roll < 180.
-Hypothesis Hpitch : -90 < pitch < 90.
-Hypothesis Hheading : -180 < heading < 180.
-
-Ltac corr_facts :=
-  pose proof (corr3_alt lat lon alt VN VE VD roll pitch heading x0 x1 x2 x3 x4 x5 x6 x7 x8) as Falt;
-  pose proof (corr3_roll lat lon alt VN VE VD roll pitch heading x0 x1 x2 x3 x4 x5 x6 x7 x8 Hroll Hpitch) as Froll;
-  pose proof (corr3_pitch lat lon alt VN VE VD roll pitch heading x0 x1 x2 x3 x4 x5 x6 x7 x8 Hpitch) as Fpitch;
-  pose proof (corr3_heading lat lon alt VN VE VD roll pitch heading x0 x1 x2 x3 x4 x5 x6 x7 x8 Hpitch Hheading) as Fheading;
-  destruct (corr3_at0 lat lon alt VN VE VD roll pitch heading x0 x1 x2 x3 x4 x5 x6 x7 x8 Hroll Hpitch Hheading)
-    as [Vlat [Vlon [Valt [VVN [VVE [VVD [Vroll [Vpitch Vheading]]]]]]]];
-  cbv beta in *;
-  pose proof (cos_d2r_pos pitch Hpitch) as Hcp; pose proof PI_neq0 as Hpi;
-  pose proof (rn_pos (lat * (PI/180)) alt Halt) as Hrn;
-  pose proof (re_pos (lat * (PI/180)) alt Halt) as Hre;
-  pose proof (cos_d2r_pos lat Hlat) as Hcos;
-  assert (Hs : sqrt (1 - sin (lat * (PI/180)) * sin (lat * (PI/180))) = cos (lat * (PI/180)))
-    by (apply sqrt_1msin2; lra).
-
-Ltac clean0 :=
-  repeat match goal with |- context [lat + - (0 * x0) / ?K0 * (180 / PI)] =>
-    replace (lat + - (0 * x0) / K0 * (180 / PI)) with lat by (unfold Rdiv; ring) end;
-  repeat match goal with |- context [lat + - (0 * x0) * / ?K0 * (180 / PI)] =>
-    replace (lat + - (0 * x0) * / K0 * (180 / PI)) with lat by (unfold Rdiv; ring) end;
-  try replace (alt - - (0 * x2)) with alt by ring.
-Ltac clean_mid2 :=
-  replace (1 / 2 * (lat + lat)) with lat by field;
-  try replace (1 / 2 * (alt + alt)) with alt by field.
-
-Lemma H_is_jacobian_pos3d_0 :
-  is_derive (Zc_pos3d lat lon alt VN VE VD roll pitch heading lat lon alt sd x0 x1 x2 x3 x4 x5 x6 x7 x8 0) 0
-    (- mvec 9 (Hm_pos3d lat lon alt VN VE VD roll pitch heading lat lon alt sd) (vec9 x0 x1 x2 x3 x4 x5 x6 x7 x8) 0).
-Proof.
-  corr_facts. cbv [Zc_pos3d on_corrected3d]. unfold pos3d_z0.
-  evar_last.
-  - idtac.
-      unfold along3. unfold correct3d_lat, correct3d_lon, correct3d_alt.
-      match goal with |- is_derive (fun e => (lat + - (e * x0) / ?K * (180 / PI) - lat) * (PI / 180) * _) 0 _ =>
-        set (k := K) in * end.
-      match goal with |- is_derive (fun e => (lat + - (e * x0) / k * (180 / PI) - lat) * (PI / 180) * @?Q e) 0 _ =>
-        apply (is_derive_ext (fun e => e * (- x0 * / k * (180 / PI) * (PI / 180) * Q e)));
-        [ intro e; cbv beta; unfold Rdiv; eqR; ring | apply is_derive_e_times; [|reflexivity] ]
-      end.
-      autounfold with pos3d_db; auto_derive; clean0; clean_mid2;
-      splits; try exact I; try (apply Rgt_not_eq); try (exact (W_pos' _)); try (exact (sqrtW_pos _));
-      pose proof (sc1 (lat * (PI / 180))); nra.
-  - cbv beta. clean0;
-    autounfold with pos3d_db; clean_mid2; autounfold with correct3d_db;
-    cbv [mvec sumN Tout3 Hm_pos3d vec9];
-    autounfold with errstate_mat errstate_meas; autounfold with to_output3d_db pos3d_db;
-    rewrite ?Hs;
-    match type of Hrn with 0 < ?r + alt => set (rn := r) in * end;
-    match type of Hre with 0 < ?r + alt => set (re := r) in * end;
-    trig_abbrev roll pitch heading;
-    first [ ring [Hr Hp Hh] | field_simplify_eq; [ring [Hr Hp Hh] | splits; try assumption; lra] ].
-Qed.
-
-Lemma H_is_jacobian_pos3d_1 :
-  is_derive (Zc_pos3d lat lon alt VN VE VD roll pitch heading lat lon alt sd x0 x1 x2 x3 x4 x5 x6 x7 x8 1) 0
-    (- mvec 9 (Hm_pos3d lat lon alt VN VE VD roll pitch heading lat lon alt sd) (vec9 x0 x1 x2 x3 x4 x5 x6 x7 x8) 1).
-Proof.
-  corr_facts. cbv [Zc_pos3d on_corrected3d]. unfold pos3d_z1.
-  evar_last.
-  - idtac.
-      unfold along3. unfold correct3d_lat, correct3d_lon, correct3d_alt.
-      match goal with |- is_derive (fun e => (lon + - (e * x1) / ?K * (180 / PI) - lon) * (PI / 180) * _) 0 _ =>
-        set (k := K) in * end.
-      match goal with |- is_derive (fun e => (lon + - (e * x1) / k * (180 / PI) - lon) * (PI / 180) * @?Q e) 0 _ =>
-        apply (is_derive_ext (fun e => e * (- x1 * / k * (180 / PI) * (PI / 180) * Q e)));
-        [ intro e; cbv beta; unfold Rdiv; eqR; ring | apply is_derive_e_times; [|reflexivity] ]
-      end.
-      autounfold with pos3d_db; auto_derive; clean0; clean_mid2;
-      splits; try exact I; try (apply Rgt_not_eq); try (exact (W_pos' _)); try (exact (sqrtW_pos _));
-      pose proof (sc1 (lat * (PI / 180))); nra.
-  - cbv beta. clean0;
-    autounfold with pos3d_db; clean_mid2; autounfold with correct3d_db;
-    cbv [mvec sumN Tout3 Hm_pos3d vec9];
-    autounfold with errstate_mat errstate_meas; autounfold with to_output3d_db pos3d_db;
-    rewrite ?Hs;
-    match type of Hrn with 0 < ?r + alt => set (rn := r) in * end;
-    match type of Hre with 0 < ?r + alt => set (re := r) in * end;
-    trig_abbrev roll pitch heading;
-    first [ ring [Hr Hp Hh] | field_simplify_eq; [ring [Hr Hp Hh] | splits; try assumption; lra] ].
-Qed.
-
-Lemma H_is_jacobian_pos3d_2 :
-  is_derive (Zc_pos3d lat lon alt VN VE VD roll pitch heading lat lon alt sd x0 x1 x2 x3 x4 x5 x6 x7 x8 2) 0
-    (- mvec 9 (Hm_pos3d lat lon alt VN VE VD roll pitch heading lat lon alt sd) (vec9 x0 x1 x2 x3 x4 x5 x6 x7 x8) 2).
-Proof.
-  corr_facts. cbv [Zc_pos3d on_corrected3d]. unfold pos3d_z2.
-  autounfold with pos3d_db.
-  auto_derive; [splits; try exact I; eexists; eassumption|].
-  derive_val Falt. try derive_val Froll. try derive_val Fpitch. try derive_val Fheading.
-  rewrite ?Valt, ?Vroll, ?Vpitch, ?Vheading.
-  cbv [mvec sumN Tout3 Hm_pos3d vec9];
-  autounfold with errstate_mat errstate_meas; autounfold with to_output3d_db pos3d_db;
-  trig_abbrev roll pitch heading;
-  first [ ring [Hr Hp Hh] | field_simplify_eq; [ring [Hr Hp Hh] | splits; try assumption; lra] ].
-Qed.
-
-Lemma H_is_jacobian_pos3d_l_0 :
-  is_derive (Zc_pos3d_l lat lon alt VN VE VD roll pitch heading lat lon alt l0 l1 l2 sd x0 x1 x2 x3 x4 x5 x6 x7 x8 0) 0
-    (- mvec 9 (Hm_pos3d_l lat lon alt VN VE VD roll pitch heading lat lon alt l0 l1 l2 sd) (vec9 x0 x1 x2 x3 x4 x5 x6 x7 x8) 0).
-Proof.
-  corr_facts. cbv [Zc_pos3d_l on_corrected3d]. unfold pos3d_l_z0.
-  evar_last.
-  - apply (is_derive_plus (V := R_NormedModule)).
-    + idtac.
-      unfold along3. unfold correct3d_lat, correct3d_lon, correct3d_alt.
-      match goal with |- is_derive (fun e => (lat + - (e * x0) / ?K * (180 / PI) - lat) * (PI / 180) * _) 0 _ =>
-        set (k := K) in * end.
-      match goal with |- is_derive (fun e => (lat + - (e * x0) / k * (180 / PI) - lat) * (PI / 180) * @?Q e) 0 _ =>
-        apply (is_derive_ext (fun e => e * (- x0 * / k * (180 / PI) * (PI / 180) * Q e)));
-        [ intro e; cbv beta; unfold Rdiv; eqR; ring | apply is_derive_e_times; [|reflexivity] ]
-      end.
-      autounfold with pos3d_l_db; auto_derive; clean0; clean_mid2;
-      splits; try exact I; try (apply Rgt_not_eq); try (exact (W_pos' _)); try (exact (sqrtW_pos _));
-      pose proof (sc1 (lat * (PI / 180))); nra.
-    + autounfold with pos3d_l_db. auto_derive; [splits; try exact I; eexists; eassumption|]. reflexivity.
-  - cbv beta. unfold plus; simpl.
-    derive_val Froll. derive_val Fpitch. derive_val Fheading. rewrite ?Vroll, ?Vpitch, ?Vheading.
-    clean0;
-    autounfold with pos3d_l_db; clean_mid2; autounfold with correct3d_db;
-    cbv [mvec sumN Tout3 Hm_pos3d_l vec9];
-    autounfold with errstate_mat errstate_meas; autounfold with to_output3d_db pos3d_l_db;
-    rewrite ?Hs;
-    match type of Hrn with 0 < ?r + alt => set (rn := r) in * end;
-    match type of Hre with 0 < ?r + alt => set (re := r) in * end;
-    trig_abbrev roll pitch heading;
-    first [ ring [Hr Hp Hh] | field_simplify_eq; [ring [Hr Hp Hh] | splits; try assumption; lra] ].
-Qed.
-
-Lemma H_is_jacobian_pos3d_l_1 :
-  is_derive (Zc_pos3d_l lat lon alt VN VE VD roll pitch heading lat lon alt l0 l1 l2 sd x0 x1 x2 x3 x4 x5 x6 x7 x8 1) 0
-    (- mvec 9 (Hm_pos3d_l lat lon alt VN VE VD roll pitch heading lat lon alt l0 l1 l2 sd) (vec9 x0 x1 x2 x3 x4 x5 x6 x7 x8) 1).
-Proof.
-  corr_facts. cbv [Zc_pos3d_l on_corrected3d]. unfold pos3d_l_z1.
-  evar_last.
-  - apply (is_derive_plus (V := R_NormedModule)).
-    + idtac.
-      unfold along3. unfold correct3d_lat, correct3d_lon, correct3d_alt.
-      match goal with |- is_derive (fun e => (lon + - (e * x1) / ?K * (180 / PI) - lon) * (PI / 180) * _) 0 _ =>
-        set (k := K) in * end.
-      match goal with |- is_derive (fun e => (lon + - (e * x1) / k * (180 / PI) - lon) * (PI / 180) * @?Q e) 0 _ =>
-        apply (is_derive_ext (fun e => e * (- x1 * / k * (180 / PI) * (PI / 180) * Q e)));
-        [ intro e; cbv beta; unfold Rdiv; eqR; ring | apply is_derive_e_times; [|reflexivity] ]
-      end.
-      autounfold with pos3d_l_db; auto_derive; clean0; clean_mid2;
-      splits; try exact I; try (apply Rgt_not_eq); try (exact (W_pos' _)); try (exact (sqrtW_pos _));
-      pose proof (sc1 (lat * (PI / 180))); nra.
-    + autounfold with pos3d_l_db. auto_derive; [splits; try exact I; eexists; eassumption|]. reflexivity.
-  - cbv beta. unfold plus; simpl.
-    derive_val Froll. derive_val Fpitch. derive_val Fheading. rewrite ?Vroll, ?Vpitch, ?Vheading.
-    clean0;
-    autounfold with pos3d_l_db; clean_mid2; autounfold with correct3d_db;
-    cbv [mvec sumN Tout3 Hm_pos3d_l vec9];
-    autounfold with errstate_mat errstate_meas; autounfold with to_output3d_db pos3d_l_db;
-    rewrite ?Hs;
-    match type of Hrn with 0 < ?r + alt => set (rn := r) in * end;
-    match type of Hre with 0 < ?r + alt => set (re := r) in * end;
-    trig_abbrev roll pitch heading;
-    first [ ring [Hr Hp Hh] | field_simplify_eq; [ring [Hr Hp Hh] | splits; try assumption; lra] ].
-Qed.
-
-Lemma H_is_jacobian_pos3d_l_2 :
-  is_derive (Zc_pos3d_l lat lon alt VN VE VD roll pitch heading lat lon alt l0 l1 l2 sd x0 x1 x2 x3 x4 x5 x6 x7 x8 2) 0
-    (- mvec 9 (Hm_pos3d_l lat lon alt VN VE VD roll pitch heading lat lon alt l0 l1 l2 sd) (vec9 x0 x1 x2 x3 x4 x5 x6 x7 x8) 2).
-Proof.
-  corr_facts. cbv [Zc_pos3d_l on_corrected3d]. unfold pos3d_l_z2.
-  autounfold with pos3d_l_db.
-  auto_derive; [splits; try exact I; eexists; eassumption|].
-  derive_val Falt. try derive_val Froll. try derive_val Fpitch. try derive_val Fheading.
-  rewrite ?Valt, ?Vroll, ?Vpitch, ?Vheading.
-  cbv [mvec sumN Tout3 Hm_pos3d_l vec9];
-  autounfold with errstate_mat errstate_meas; autounfold with to_output3d_db pos3d_l_db;
-  trig_abbrev roll pitch heading;
-  first [ ring [Hr Hp Hh] | field_simplify_eq; [ring [Hr Hp Hh] | splits; try assumption; lra] ].
-Qed.
-
-End Pos3D.
-
-Section Pos2D.
-Variables lat lon alt VN VE VD roll pitch heading : R.
-Variables x0 x1 x2 x3 x4 x5 x6 : R.
-Variables l0 l1 l2 sd : R.
-Hypothesis Hlat : -90 < lat < 90.
-Hypothesis Halt : -1000000 <= alt.
-Hypothesis Hroll : -180 < roll < 180.
-Hypothesis Hpitch : -90 < pitch < 90.
-Hypothesis Hheading : -180 < heading < 180.
-
-Ltac corr_facts :=
-  pose proof (corr2_alt lat lon alt VN VE VD roll pitch heading x0 x1 x2 x3 x4 x5 x6) as Falt;
-  pose proof (corr2_roll lat lon alt VN VE VD roll pitch heading x0 x1 x2 x3 x4 x5 x6 Hroll Hpitch) as Froll;
-  pose proof (corr2_pitch lat lon alt VN VE VD roll pitch heading x0 x1 x2 x3 x4 x5 x6 Hpitch) as Fpitch;
-  pose proof (corr2_heading lat lon alt VN VE VD roll pitch heading x0 x1 x2 x3 x4 x5 x6 Hpitch Hheading) as Fheading;
-  destruct (corr2_at0 lat lon alt VN VE VD roll pitch heading x0 x1 x2 x3 x4 x5 x6 Hroll Hpitch Hheading)
-    as [Vlat [Vlon [Valt [VVN [VVE [VVD [Vroll [Vpitch Vheading]]]]]]]];
-  cbv beta in *;
-  pose proof (cos_d2r_pos pitch Hpitch) as Hcp; pose proof PI_neq0 as Hpi;
-  pose proof (rn_pos (lat * (PI/180)) alt Halt) as Hrn;
-  pose proof (re_pos (lat * (PI/180)) alt Halt) as Hre;
-  pose proof (cos_d2r_pos lat Hlat) as Hcos;
-  assert (Hs : sqrt (1 - sin (lat * (PI/180)) * sin (lat * (PI/180))) = cos (lat * (PI/180)))
-    by (apply sqrt_1msin2; lra).
-
-Ltac clean0 :=
-  repeat match goal with |- context [lat + - (0 * x0) / ?K0 * (180 / PI)] =>
-    replace (lat + - (0 * x0) / K0 * (180 / PI)) with lat by (unfold Rdiv; ring) end;
-  repeat match goal with |- context [lat + - (0 * x0) * / ?K0 * (180 / PI)] =>
-    replace (lat + - (0 * x0) * / K0 * (180 / PI)) with lat by (unfold Rdiv; ring) end;
-  try replace (alt - - (0 * x2)) with alt by ring.
-Ltac clean_mid2 :=
-  replace (1 / 2 * (lat + lat)) with lat by field;
-  try replace (1 / 2 * (alt + alt)) with alt by field.
-
-Lemma H_is_jacobian_pos2d_0 :
-  is_derive (Zc_pos2d lat lon alt VN VE VD roll pitch heading lat lon alt sd x0 x1 x2 x3 x4 x5 x6 0) 0
-    (- mvec 7 (Hm_pos2d lat lon alt VN VE VD roll pitch heading lat lon alt sd) (vec7 x0 x1 x2 x3 x4 x5 x6) 0).
-Proof.
-  corr_facts. cbv [Zc_pos2d on_corrected2d]. unfold pos2d_z0.
-  evar_last.
-  - idtac.
-      unfold along2. unfold correct2d_lat, correct2d_lon, correct2d_alt.
-      match goal with |- is_derive (fun e => (lat + - (e * x0) / ?K * (180 / PI) - lat) * (PI / 180) * _) 0 _ =>
-        set (k := K) in * end.
-      match goal with |- is_derive (fun e => (lat + - (e * x0) / k * (180 / PI) - lat) * (PI / 180) * @?Q e) 0 _ =>
-        apply (is_derive_ext (fun e => e * (- x0 * / k * (180 / PI) * (PI / 180) * Q e)));
-        [ intro e; cbv beta; unfold Rdiv; eqR; ring | apply is_derive_e_times; [|reflexivity] ]
-      end.
-      autounfold with pos2d_db; auto_derive; clean0; clean_mid2;
-      splits; try exact I; try (apply Rgt_not_eq); try (exact (W_pos' _)); try (exact (sqrtW_pos _));
-      pose proof (sc1 (lat * (PI / 180))); nra.
-  - cbv beta. clean0;
-    autounfold with pos2d_db; clean_mid2; autounfold with correct2d_db;
-    cbv [mvec sumN Tout2 Hm_pos2d vec7];
-    autounfold with errstate_mat errstate_meas; autounfold with to_output2d_db pos2d_db;
-    rewrite ?Hs;
-    match type of Hrn with 0 < ?r + alt => set (rn := r) in * end;
-    match type of Hre with 0 < ?r + alt => set (re := r) in * end;
-    trig_abbrev roll pitch heading;
-    first [ ring [Hr Hp Hh] | field_simplify_eq; [ring [Hr Hp Hh] | splits; try assumption; lra] ].
-Qed.
-
-Lemma H_is_jacobian_pos2d_1 :
-  is_derive (Zc_pos2d lat lon alt VN VE VD roll pitch heading lat lon alt sd x0 x1 x2 x3 x4 x5 x6 1) 0
-    (- mvec 7 (Hm_pos2d lat lon alt VN VE VD roll pitch heading lat lon alt sd) (vec7 x0 x1 x2 x3 x4 x5 x6) 1).
-Proof.
-  corr_facts. cbv [Zc_pos2d on_corrected2d]. unfold pos2d_z1.
-  evar_last.
-  - idtac.
-      unfold along2. unfold correct2d_lat, correct2d_lon, correct2d_alt.
-      match goal with |- is_derive (fun e => (lon + - (e * x1) / ?K * (180 / PI) - lon) * (PI / 180) * _) 0 _ =>
-        set (k := K) in * end.
-      match goal with |- is_derive (fun e => (lon + - (e * x1) / k * (180 / PI) - lon) * (PI / 180) * @?Q e) 0 _ =>
-        apply (is_derive_ext (fun e => e * (- x1 * / k * (180 / PI) * (PI / 180) * Q e)));
-        [ intro e; cbv beta; unfold Rdiv; eqR; ring | apply is_derive_e_times; [|reflexivity] ]
-      end.
-      autounfold with pos2d_db; auto_derive; clean0; clean_mid2;
-      splits; try exact I; try (apply Rgt_not_eq); try (exact (W_pos' _)); try (exact (sqrtW_pos _));
-      pose proof (sc1 (lat * (PI / 180))); nra.
-  - cbv beta. clean0;
-    autounfold with pos2d_db; clean_mid2; autounfold with correct2d_db;
-    cbv [mvec sumN Tout2 Hm_pos2d vec7];
-    autounfold with errstate_mat errstate_meas; autounfold with to_output2d_db pos2d_db;
-    rewrite ?Hs;
-    match type of Hrn with 0 < ?r + alt => set (rn := r) in * end;
-    match type of Hre with 0 < ?r + alt => set (re := r) in * end;
-    trig_abbrev roll pitch heading;
-    first [ ring [Hr Hp Hh] | field_simplify_eq; [ring [Hr Hp Hh] | splits; try assumption; lra] ].
-Qed.
-
-Lemma H_is_jacobian_pos2d_l_0 :
-  is_derive (Zc_pos2d_l lat lon alt VN VE VD roll pitch heading lat lon alt l0 l1 l2 sd x0 x1 x2 x3 x4 x5 x6 0) 0
-    (- mvec 7 (Hm_pos2d_l lat lon alt VN VE VD roll pitch heading lat lon alt l0 l1 l2 sd) (vec7 x0 x1 x2 x3 x4 x5 x6) 0).
-Proof.
-  corr_facts. cbv [Zc_pos2d_l on_corrected2d]. unfold pos2d_l_z0.
-  evar_last.
-  - apply (is_derive_plus (V := R_NormedModule)).
-    + idtac.
-      unfold along2. unfold correct2d_lat, correct2d_lon, correct2d_alt.
-      match goal with |- is_derive (fun e => (lat + - (e * x0) / ?K * (180 / PI) - lat) * (PI / 180) * _) 0 _ =>
-        set (k := K) in * end.
-      match goal with |- is_derive (fun e => (lat + - (e * x0) / k * (180 / PI) - lat) * (PI / 180) * @?Q e) 0 _ =>
-        apply (is_derive_ext (fun e => e * (- x0 * / k * (180 / PI) * (PI / 180) * Q e)));
-        [ intro e; cbv beta; unfold Rdiv; eqR; ring | apply is_derive_e_times; [|reflexivity] ]
-      end.
-      autounfold with pos2d_l_db; auto_derive; clean0; clean_mid2;
-      splits; try exact I; try (apply Rgt_not_eq); try (exact (W_pos' _)); try (exact (sqrtW_pos _));
-      pose proof (sc1 (lat * (PI / 180))); nra.
-    + autounfold with pos2d_l_db. auto_derive; [splits; try exact I; eexists; eassumption|]. reflexivity.
-  - cbv beta. unfold plus; simpl.
-    derive_val Froll. derive_val Fpitch. derive_val Fheading. rewrite ?Vroll, ?Vpitch, ?Vheading.
-    clean0;
-    autounfold with pos2d_l_db; clean_mid2; autounfold with correct2d_db;
-    cbv [mvec sumN Tout2 Hm_pos2d_l vec7];
-    autounfold with errstate_mat errstate_meas; autounfold with to_output2d_db pos2d_l_db;
-    rewrite ?Hs;
-    match type of Hrn with 0 < ?r + alt => set (rn := r) in * end;
-    match type of Hre with 0 < ?r + alt => set (re := r) in * end;
-    trig_abbrev roll pitch heading;
-    first [ ring [Hr Hp Hh] | field_simplify_eq; [ring [Hr Hp Hh] | splits; try assumption; lra] ].
-Qed.
-
-Lemma H_is_jacobian_pos2d_l_1 :
-  is_derive (Zc_pos2d_l lat lon alt VN VE VD roll pitch heading lat lon alt l0 l1 l2 sd x0 x1 x2 x3 x4 x5 x6 1) 0
-    (- mvec 7 (Hm_pos2d_l lat lon alt VN VE VD roll pitch heading lat lon alt l0 l1 l2 sd) (vec7 x0 x1 x2 x3 x4 x5 x6) 1).
-Proof.
-  corr_facts. cbv [Zc_pos2d_l on_corrected2d]. unfold pos2d_l_z1.
-  evar_last.
-  - apply (is_derive_plus (V := R_NormedModule)).
-    + idtac.
-      unfold along2. unfold correct2d_lat, correct2d_lon, correct2d_alt.
-      match goal with |- is_derive (fun e => (lon + - (e * x1) / ?K * (180 / PI) - lon) * (PI / 180) * _) 0 _ =>
-        set (k := K) in * end.
-      match goal with |- is_derive (fun e => (lon + - (e * x1) / k * (180 / PI) - lon) * (PI / 180) * @?Q e) 0 _ =>
-        apply (is_derive_ext (fun e => e * (- x1 * / k * (180 / PI) * (PI / 180) * Q e)));
-        [ intro e; cbv beta; unfold Rdiv; eqR; ring | apply is_derive_e_times; [|reflexivity] ]
-      end.
-      autounfold with pos2d_l_db; auto_derive; clean0; clean_mid2;
-      splits; try exact I; try (apply Rgt_not_eq); try (exact (W_pos' _)); try (exact (sqrtW_pos _));
-      pose proof (sc1 (lat * (PI / 180))); nra.
-    + autounfold with pos2d_l_db. auto_derive; [splits; try exact I; eexists; eassumption|]. reflexivity.
-  - cbv beta. unfold plus; simpl.
-    derive_val Froll. derive_val Fpitch. derive_val Fheading. rewrite ?Vroll, ?Vpitch, ?Vheading.
-    clean0;
-    autounfold with pos2d_l_db; clean_mid2; autounfold with correct2d_db;
-    cbv [mvec sumN Tout2 Hm_pos2d_l vec7];
-    autounfold with errstate_mat errstate_meas; autounfold with to_output2d_db pos2d_l_db;
-    rewrite ?Hs;
-    match type of Hrn with 0 < ?r + alt => set (rn := r) in * end;
-    match type of Hre with 0 < ?r + alt => set (re := r) in * end;
-    trig_abbrev roll pitch heading;
-    first [ ring [Hr Hp Hh] | field_simplify_eq; [ring [Hr Hp Hh] | splits; try assumption; lra] ].
-Qed.
-
-End Pos2D.
+(* (the position-class sections follow D.3, whose residual_form lemmas they use) *)
 
 (** ** D.3  noise matrix, residual form (sign and units), equal configurations *)
 
@@ -2745,6 +2614,237 @@ Proof.
 Qed.
 
 
+Section Pos3D.
+Variables lat lon alt VN VE VD roll pitch heading : R.
+Variables x0 x1 x2 x3 x4 x5 x6 x7 x8 : R.
+Variables l0 l1 l2 sd : R.
+Hypothesis Hlat : -90 < lat < 90.
+Hypothesis Halt : -1000000 <= alt.
+Hypothesis Hroll : -180 < roll < 180.
+Hypothesis Hpitch : -90 < pitch < 90.
+Hypothesis Hheading : -180 < heading < 180.
+
+Ltac corr_facts :=
+  pose proof (corr3_roll lat lon alt VN VE VD roll pitch heading x0 x1 x2 x3 x4 x5 x6 x7 x8 Hroll Hpitch) as Froll;
+  pose proof (corr3_pitch lat lon alt VN VE VD roll pitch heading x0 x1 x2 x3 x4 x5 x6 x7 x8 Hpitch) as Fpitch;
+  pose proof (corr3_heading lat lon alt VN VE VD roll pitch heading x0 x1 x2 x3 x4 x5 x6 x7 x8 Hpitch Hheading) as Fheading;
+  destruct (corr3_at0 lat lon alt VN VE VD roll pitch heading x0 x1 x2 x3 x4 x5 x6 x7 x8 Hroll Hpitch Hheading)
+    as [Vlat [Vlon [Valt [VVN [VVE [VVD [Vroll [Vpitch Vheading]]]]]]]];
+  cbv beta in *;
+  pose proof (cos_d2r_pos pitch Hpitch) as Hcp; pose proof PI_neq0 as Hpi;
+  assert (Halt' : -6000000 < alt) by lra.
+
+(* the lever-arm part C_nb(rph') l of the residual: differentiate through the corrected attitude *)
+Ltac lever_part :=
+  cbv [mvec sumN Cnb vec3];
+  unfold mat_from_rph_m00, mat_from_rph_m01, mat_from_rph_m02, mat_from_rph_m10, mat_from_rph_m11,
+    mat_from_rph_m12, mat_from_rph_m20, mat_from_rph_m21, mat_from_rph_m22;
+  repeat autounfold with mat_from_rph_db;
+  auto_derive; [splits; try exact I; eexists; eassumption | reflexivity].
+
+Lemma H_is_jacobian_pos3d_0 :
+  is_derive (Zc_pos3d lat lon alt VN VE VD roll pitch heading lat lon alt sd x0 x1 x2 x3 x4 x5 x6 x7 x8 0) 0
+    (- mvec 9 (Hm_pos3d lat lon alt VN VE VD roll pitch heading lat lon alt sd) (vec9 x0 x1 x2 x3 x4 x5 x6 x7 x8) 0).
+Proof.
+  corr_facts. cbv [Zc_pos3d on_corrected3d]. unfold along3 at 1 2 3.
+  apply (is_derive_ext (fun e => e * (- x0 * KN lat alt * QN (1 / 2 * (lat - e * x0 * KN lat alt + lat)) (1 / 2 * (alt + e * x2 + alt))))).
+  { intro e. rewrite (residual_form_pos3d _ _ _ _ _ _ _ _ _ lat lon alt sd 0%nat ltac:(lia)); cbv [lla_diff]; rewrite lla_diff0_eq, correct3d_lat_eq, correct3d_alt_eq by assumption. eqR. ring. }
+  evar_last.
+  - apply is_derive_north; try exact Halt'; affine_side.
+  - cbv beta.
+    try derive_val Froll; try derive_val Fpitch; try derive_val Fheading; rewrite ?Vroll, ?Vpitch, ?Vheading;
+    cbv [mvec sumN Tout3 Hm_pos3d vec9];
+    autounfold with errstate_mat errstate_meas; autounfold with to_output3d_db pos3d_db;
+    trig_abbrev roll pitch heading;
+    first [ ring [Hr Hp Hh] | field_simplify_eq; [ring [Hr Hp Hh] | splits; try assumption; lra] ].
+Qed.
+
+Lemma H_is_jacobian_pos3d_1 :
+  is_derive (Zc_pos3d lat lon alt VN VE VD roll pitch heading lat lon alt sd x0 x1 x2 x3 x4 x5 x6 x7 x8 1) 0
+    (- mvec 9 (Hm_pos3d lat lon alt VN VE VD roll pitch heading lat lon alt sd) (vec9 x0 x1 x2 x3 x4 x5 x6 x7 x8) 1).
+Proof.
+  corr_facts. cbv [Zc_pos3d on_corrected3d]. unfold along3 at 1 2 3.
+  apply (is_derive_ext (fun e => e * (- x1 * KE lat alt * QE (1 / 2 * (lat - e * x0 * KN lat alt + lat)) (1 / 2 * (alt + e * x2 + alt))))).
+  { intro e. rewrite (residual_form_pos3d _ _ _ _ _ _ _ _ _ lat lon alt sd 1%nat ltac:(lia)); cbv [lla_diff]; rewrite lla_diff1_eq, correct3d_lat_eq, correct3d_lon_eq, correct3d_alt_eq by assumption. eqR. ring. }
+  evar_last.
+  - apply is_derive_east; try exact Halt'; try exact Hlat; affine_side.
+  - cbv beta.
+    try derive_val Froll; try derive_val Fpitch; try derive_val Fheading; rewrite ?Vroll, ?Vpitch, ?Vheading;
+    cbv [mvec sumN Tout3 Hm_pos3d vec9];
+    autounfold with errstate_mat errstate_meas; autounfold with to_output3d_db pos3d_db;
+    trig_abbrev roll pitch heading;
+    first [ ring [Hr Hp Hh] | field_simplify_eq; [ring [Hr Hp Hh] | splits; try assumption; lra] ].
+Qed.
+
+Lemma H_is_jacobian_pos3d_2 :
+  is_derive (Zc_pos3d lat lon alt VN VE VD roll pitch heading lat lon alt sd x0 x1 x2 x3 x4 x5 x6 x7 x8 2) 0
+    (- mvec 9 (Hm_pos3d lat lon alt VN VE VD roll pitch heading lat lon alt sd) (vec9 x0 x1 x2 x3 x4 x5 x6 x7 x8) 2).
+Proof.
+  corr_facts. cbv [Zc_pos3d on_corrected3d]. unfold along3 at 1 2 3.
+  apply (is_derive_ext (fun e => alt - (alt + e * x2))).
+  { intro e. rewrite (residual_form_pos3d _ _ _ _ _ _ _ _ _ lat lon alt sd 2%nat ltac:(lia)); cbv [lla_diff]; rewrite lla_diff2_eq, correct3d_alt_eq by assumption. eqR. ring. }
+  evar_last.
+  - auto_derive; [exact I | reflexivity].
+  - cbv beta.
+    try derive_val Froll; try derive_val Fpitch; try derive_val Fheading; rewrite ?Vroll, ?Vpitch, ?Vheading;
+    cbv [mvec sumN Tout3 Hm_pos3d vec9];
+    autounfold with errstate_mat errstate_meas; autounfold with to_output3d_db pos3d_db;
+    trig_abbrev roll pitch heading;
+    first [ ring [Hr Hp Hh] | field_simplify_eq; [ring [Hr Hp Hh] | splits; try assumption; lra] ].
+Qed.
+
+Lemma H_is_jacobian_pos3d_l_0 :
+  is_derive (Zc_pos3d_l lat lon alt VN VE VD roll pitch heading lat lon alt l0 l1 l2 sd x0 x1 x2 x3 x4 x5 x6 x7 x8 0) 0
+    (- mvec 9 (Hm_pos3d_l lat lon alt VN VE VD roll pitch heading lat lon alt l0 l1 l2 sd) (vec9 x0 x1 x2 x3 x4 x5 x6 x7 x8) 0).
+Proof.
+  corr_facts. cbv [Zc_pos3d_l on_corrected3d]. unfold along3 at 1 2 3.
+  apply (is_derive_ext (fun e => e * (- x0 * KN lat alt * QN (1 / 2 * (lat - e * x0 * KN lat alt + lat)) (1 / 2 * (alt + e * x2 + alt))) + mvec 3 (Cnb (along3 correct3d_roll lat lon alt VN VE VD roll pitch heading x0 x1 x2 x3 x4 x5 x6 x7 x8 e) (along3 correct3d_pitch lat lon alt VN VE VD roll pitch heading x0 x1 x2 x3 x4 x5 x6 x7 x8 e) (along3 correct3d_heading lat lon alt VN VE VD roll pitch heading x0 x1 x2 x3 x4 x5 x6 x7 x8 e)) (vec3 l0 l1 l2) 0)).
+  { intro e. rewrite (residual_form_pos3d_l _ _ _ _ _ _ _ _ _ lat lon alt l0 l1 l2 sd 0%nat ltac:(lia)); cbv [lla_diff]; rewrite lla_diff0_eq, correct3d_lat_eq, correct3d_alt_eq by assumption. eqR. ring. }
+  evar_last.
+  - apply (is_derive_plus (V := R_NormedModule)); [apply is_derive_north; try exact Halt'; affine_side | lever_part].
+  - cbv beta. unfold plus; simpl.
+    try derive_val Froll; try derive_val Fpitch; try derive_val Fheading; rewrite ?Vroll, ?Vpitch, ?Vheading;
+    cbv [mvec sumN Tout3 Hm_pos3d_l vec9];
+    autounfold with errstate_mat errstate_meas; autounfold with to_output3d_db pos3d_l_db;
+    trig_abbrev roll pitch heading;
+    first [ ring [Hr Hp Hh] | field_simplify_eq; [ring [Hr Hp Hh] | splits; try assumption; lra] ].
+Qed.
+
+Lemma H_is_jacobian_pos3d_l_1 :
+  is_derive (Zc_pos3d_l lat lon alt VN VE VD roll pitch heading lat lon alt l0 l1 l2 sd x0 x1 x2 x3 x4 x5 x6 x7 x8 1) 0
+    (- mvec 9 (Hm_pos3d_l lat lon alt VN VE VD roll pitch heading lat lon alt l0 l1 l2 sd) (vec9 x0 x1 x2 x3 x4 x5 x6 x7 x8) 1).
+Proof.
+  corr_facts. cbv [Zc_pos3d_l on_corrected3d]. unfold along3 at 1 2 3.
+  apply (is_derive_ext (fun e => e * (- x1 * KE lat alt * QE (1 / 2 * (lat - e * x0 * KN lat alt + lat)) (1 / 2 * (alt + e * x2 + alt))) + mvec 3 (Cnb (along3 correct3d_roll lat lon alt VN VE VD roll pitch heading x0 x1 x2 x3 x4 x5 x6 x7 x8 e) (along3 correct3d_pitch lat lon alt VN VE VD roll pitch heading x0 x1 x2 x3 x4 x5 x6 x7 x8 e) (along3 correct3d_heading lat lon alt VN VE VD roll pitch heading x0 x1 x2 x3 x4 x5 x6 x7 x8 e)) (vec3 l0 l1 l2) 1)).
+  { intro e. rewrite (residual_form_pos3d_l _ _ _ _ _ _ _ _ _ lat lon alt l0 l1 l2 sd 1%nat ltac:(lia)); cbv [lla_diff]; rewrite lla_diff1_eq, correct3d_lat_eq, correct3d_lon_eq, correct3d_alt_eq by assumption. eqR. ring. }
+  evar_last.
+  - apply (is_derive_plus (V := R_NormedModule)); [apply is_derive_east; try exact Halt'; try exact Hlat; affine_side | lever_part].
+  - cbv beta. unfold plus; simpl.
+    try derive_val Froll; try derive_val Fpitch; try derive_val Fheading; rewrite ?Vroll, ?Vpitch, ?Vheading;
+    cbv [mvec sumN Tout3 Hm_pos3d_l vec9];
+    autounfold with errstate_mat errstate_meas; autounfold with to_output3d_db pos3d_l_db;
+    trig_abbrev roll pitch heading;
+    first [ ring [Hr Hp Hh] | field_simplify_eq; [ring [Hr Hp Hh] | splits; try assumption; lra] ].
+Qed.
+
+Lemma H_is_jacobian_pos3d_l_2 :
+  is_derive (Zc_pos3d_l lat lon alt VN VE VD roll pitch heading lat lon alt l0 l1 l2 sd x0 x1 x2 x3 x4 x5 x6 x7 x8 2) 0
+    (- mvec 9 (Hm_pos3d_l lat lon alt VN VE VD roll pitch heading lat lon alt l0 l1 l2 sd) (vec9 x0 x1 x2 x3 x4 x5 x6 x7 x8) 2).
+Proof.
+  corr_facts. cbv [Zc_pos3d_l on_corrected3d]. unfold along3 at 1 2 3.
+  apply (is_derive_ext (fun e => alt - (alt + e * x2) + mvec 3 (Cnb (along3 correct3d_roll lat lon alt VN VE VD roll pitch heading x0 x1 x2 x3 x4 x5 x6 x7 x8 e) (along3 correct3d_pitch lat lon alt VN VE VD roll pitch heading x0 x1 x2 x3 x4 x5 x6 x7 x8 e) (along3 correct3d_heading lat lon alt VN VE VD roll pitch heading x0 x1 x2 x3 x4 x5 x6 x7 x8 e)) (vec3 l0 l1 l2) 2)).
+  { intro e. rewrite (residual_form_pos3d_l _ _ _ _ _ _ _ _ _ lat lon alt l0 l1 l2 sd 2%nat ltac:(lia)); cbv [lla_diff]; rewrite lla_diff2_eq, correct3d_alt_eq by assumption. eqR. ring. }
+  evar_last.
+  - apply (is_derive_plus (V := R_NormedModule)); [auto_derive; [exact I | reflexivity] | lever_part].
+  - cbv beta. unfold plus; simpl.
+    try derive_val Froll; try derive_val Fpitch; try derive_val Fheading; rewrite ?Vroll, ?Vpitch, ?Vheading;
+    cbv [mvec sumN Tout3 Hm_pos3d_l vec9];
+    autounfold with errstate_mat errstate_meas; autounfold with to_output3d_db pos3d_l_db;
+    trig_abbrev roll pitch heading;
+    first [ ring [Hr Hp Hh] | field_simplify_eq; [ring [Hr Hp Hh] | splits; try assumption; lra] ].
+Qed.
+
+End Pos3D.
+
+Section Pos2D.
+Variables lat lon alt VN VE VD roll pitch heading : R.
+Variables x0 x1 x2 x3 x4 x5 x6 : R.
+Variables l0 l1 l2 sd : R.
+Hypothesis Hlat : -90 < lat < 90.
+Hypothesis Halt : -1000000 <= alt.
+Hypothesis Hroll : -180 < roll < 180.
+Hypothesis Hpitch : -90 < pitch < 90.
+Hypothesis Hheading : -180 < heading < 180.
+
+Ltac corr_facts :=
+  pose proof (corr2_roll lat lon alt VN VE VD roll pitch heading x0 x1 x2 x3 x4 x5 x6 Hroll Hpitch) as Froll;
+  pose proof (corr2_pitch lat lon alt VN VE VD roll pitch heading x0 x1 x2 x3 x4 x5 x6 Hpitch) as Fpitch;
+  pose proof (corr2_heading lat lon alt VN VE VD roll pitch heading x0 x1 x2 x3 x4 x5 x6 Hpitch Hheading) as Fheading;
+  destruct (corr2_at0 lat lon alt VN VE VD roll pitch heading x0 x1 x2 x3 x4 x5 x6 Hroll Hpitch Hheading)
+    as [Vlat [Vlon [Valt [VVN [VVE [VVD [Vroll [Vpitch Vheading]]]]]]]];
+  cbv beta in *;
+  pose proof (cos_d2r_pos pitch Hpitch) as Hcp; pose proof PI_neq0 as Hpi;
+  assert (Halt' : -6000000 < alt) by lra.
+
+(* the lever-arm part C_nb(rph') l of the residual: differentiate through the corrected attitude *)
+Ltac lever_part :=
+  cbv [mvec sumN Cnb vec3];
+  unfold mat_from_rph_m00, mat_from_rph_m01, mat_from_rph_m02, mat_from_rph_m10, mat_from_rph_m11,
+    mat_from_rph_m12, mat_from_rph_m20, mat_from_rph_m21, mat_from_rph_m22;
+  repeat autounfold with mat_from_rph_db;
+  auto_derive; [splits; try exact I; eexists; eassumption | reflexivity].
+
+Lemma H_is_jacobian_pos2d_0 :
+  is_derive (Zc_pos2d lat lon alt VN VE VD roll pitch heading lat lon alt sd x0 x1 x2 x3 x4 x5 x6 0) 0
+    (- mvec 7 (Hm_pos2d lat lon alt VN VE VD roll pitch heading lat lon alt sd) (vec7 x0 x1 x2 x3 x4 x5 x6) 0).
+Proof.
+  corr_facts. cbv [Zc_pos2d on_corrected2d]. unfold along2 at 1 2 3.
+  apply (is_derive_ext (fun e => e * (- x0 * KN lat alt * QN (1 / 2 * (lat - e * x0 * KN lat alt + lat)) (1 / 2 * (alt + alt))))).
+  { intro e. rewrite (residual_form_pos2d _ _ _ _ _ _ _ _ _ lat lon alt sd 0%nat ltac:(lia)); cbv [lla_diff]; rewrite lla_diff0_eq, correct2d_lat_eq, correct2d_alt_eq by assumption. eqR. ring. }
+  evar_last.
+  - apply is_derive_north; try exact Halt'; affine_side.
+  - cbv beta.
+    try derive_val Froll; try derive_val Fpitch; try derive_val Fheading; rewrite ?Vroll, ?Vpitch, ?Vheading;
+    cbv [mvec sumN Tout2 Hm_pos2d vec7];
+    autounfold with errstate_mat errstate_meas; autounfold with to_output2d_db pos2d_db;
+    trig_abbrev roll pitch heading;
+    first [ ring [Hr Hp Hh] | field_simplify_eq; [ring [Hr Hp Hh] | splits; try assumption; lra] ].
+Qed.
+
+Lemma H_is_jacobian_pos2d_1 :
+  is_derive (Zc_pos2d lat lon alt VN VE VD roll pitch heading lat lon alt sd x0 x1 x2 x3 x4 x5 x6 1) 0
+    (- mvec 7 (Hm_pos2d lat lon alt VN VE VD roll pitch heading lat lon alt sd) (vec7 x0 x1 x2 x3 x4 x5 x6) 1).
+Proof.
+  corr_facts. cbv [Zc_pos2d on_corrected2d]. unfold along2 at 1 2 3.
+  apply (is_derive_ext (fun e => e * (- x1 * KE lat alt * QE (1 / 2 * (lat - e * x0 * KN lat alt + lat)) (1 / 2 * (alt + alt))))).
+  { intro e. rewrite (residual_form_pos2d _ _ _ _ _ _ _ _ _ lat lon alt sd 1%nat ltac:(lia)); cbv [lla_diff]; rewrite lla_diff1_eq, correct2d_lat_eq, correct2d_lon_eq, correct2d_alt_eq by assumption. eqR. ring. }
+  evar_last.
+  - apply is_derive_east; try exact Halt'; try exact Hlat; affine_side.
+  - cbv beta.
+    try derive_val Froll; try derive_val Fpitch; try derive_val Fheading; rewrite ?Vroll, ?Vpitch, ?Vheading;
+    cbv [mvec sumN Tout2 Hm_pos2d vec7];
+    autounfold with errstate_mat errstate_meas; autounfold with to_output2d_db pos2d_db;
+    trig_abbrev roll pitch heading;
+    first [ ring [Hr Hp Hh] | field_simplify_eq; [ring [Hr Hp Hh] | splits; try assumption; lra] ].
+Qed.
+
+Lemma H_is_jacobian_pos2d_l_0 :
+  is_derive (Zc_pos2d_l lat lon alt VN VE VD roll pitch heading lat lon alt l0 l1 l2 sd x0 x1 x2 x3 x4 x5 x6 0) 0
+    (- mvec 7 (Hm_pos2d_l lat lon alt VN VE VD roll pitch heading lat lon alt l0 l1 l2 sd) (vec7 x0 x1 x2 x3 x4 x5 x6) 0).
+Proof.
+  corr_facts. cbv [Zc_pos2d_l on_corrected2d]. unfold along2 at 1 2 3.
+  apply (is_derive_ext (fun e => e * (- x0 * KN lat alt * QN (1 / 2 * (lat - e * x0 * KN lat alt + lat)) (1 / 2 * (alt + alt))) + mvec 3 (Cnb (along2 correct2d_roll lat lon alt VN VE VD roll pitch heading x0 x1 x2 x3 x4 x5 x6 e) (along2 correct2d_pitch lat lon alt VN VE VD roll pitch heading x0 x1 x2 x3 x4 x5 x6 e) (along2 correct2d_heading lat lon alt VN VE VD roll pitch heading x0 x1 x2 x3 x4 x5 x6 e)) (vec3 l0 l1 l2) 0)).
+  { intro e. rewrite (residual_form_pos2d_l _ _ _ _ _ _ _ _ _ lat lon alt l0 l1 l2 sd 0%nat ltac:(lia)); cbv [lla_diff]; rewrite lla_diff0_eq, correct2d_lat_eq, correct2d_alt_eq by assumption. eqR. ring. }
+  evar_last.
+  - apply (is_derive_plus (V := R_NormedModule)); [apply is_derive_north; try exact Halt'; affine_side | lever_part].
+  - cbv beta. unfold plus; simpl.
+    try derive_val Froll; try derive_val Fpitch; try derive_val Fheading; rewrite ?Vroll, ?Vpitch, ?Vheading;
+    cbv [mvec sumN Tout2 Hm_pos2d_l vec7];
+    autounfold with errstate_mat errstate_meas; autounfold with to_output2d_db pos2d_l_db;
+    trig_abbrev roll pitch heading;
+    first [ ring [Hr Hp Hh] | field_simplify_eq; [ring [Hr Hp Hh] | splits; try assumption; lra] ].
+Qed.
+
+Lemma H_is_jacobian_pos2d_l_1 :
+  is_derive (Zc_pos2d_l lat lon alt VN VE VD roll pitch heading lat lon alt l0 l1 l2 sd x0 x1 x2 x3 x4 x5 x6 1) 0
+    (- mvec 7 (Hm_pos2d_l lat lon alt VN VE VD roll pitch heading lat lon alt l0 l1 l2 sd) (vec7 x0 x1 x2 x3 x4 x5 x6) 1).
+Proof.
+  corr_facts. cbv [Zc_pos2d_l on_corrected2d]. unfold along2 at 1 2 3.
+  apply (is_derive_ext (fun e => e * (- x1 * KE lat alt * QE (1 / 2 * (lat - e * x0 * KN lat alt + lat)) (1 / 2 * (alt + alt))) + mvec 3 (Cnb (along2 correct2d_roll lat lon alt VN VE VD roll pitch heading x0 x1 x2 x3 x4 x5 x6 e) (along2 correct2d_pitch lat lon alt VN VE VD roll pitch heading x0 x1 x2 x3 x4 x5 x6 e) (along2 correct2d_heading lat lon alt VN VE VD roll pitch heading x0 x1 x2 x3 x4 x5 x6 e)) (vec3 l0 l1 l2) 1)).
+  { intro e. rewrite (residual_form_pos2d_l _ _ _ _ _ _ _ _ _ lat lon alt l0 l1 l2 sd 1%nat ltac:(lia)); cbv [lla_diff]; rewrite lla_diff1_eq, correct2d_lat_eq, correct2d_lon_eq, correct2d_alt_eq by assumption. eqR. ring. }
+  evar_last.
+  - apply (is_derive_plus (V := R_NormedModule)); [apply is_derive_east; try exact Halt'; try exact Hlat; affine_side | lever_part].
+  - cbv beta. unfold plus; simpl.
+    try derive_val Froll; try derive_val Fpitch; try derive_val Fheading; rewrite ?Vroll, ?Vpitch, ?Vheading;
+    cbv [mvec sumN Tout2 Hm_pos2d_l vec7];
+    autounfold with errstate_mat errstate_meas; autounfold with to_output2d_db pos2d_l_db;
+    trig_abbrev roll pitch heading;
+    first [ ring [Hr Hp Hh] | field_simplify_eq; [ring [Hr Hp Hh] | splits; try assumption; lra] ].
+Qed.
+
+End Pos2D.
+
+
 (** position class: all components of one configuration together *)
 Lemma H_is_jacobian_pos3d lat lon alt VN VE VD roll pitch heading x0 x1 x2 x3 x4 x5 x6 x7 x8 sd :
   -90 < lat < 90 -> -1000000 <= alt -> -180 < roll < 180 -> -90 < pitch < 90 -> -180 < heading < 180 ->
@@ -2864,7 +2964,11 @@ Lemma pc3_at0 :
   PC correct3d_VN 0 = VN /\ PC correct3d_VE 0 = VE /\ PC correct3d_VD 0 = VD /\
   PC correct3d_roll 0 = roll /\ PC correct3d_pitch 0 = pitch /\ PC correct3d_heading 0 = heading.
 Proof.
-  unfP. unfold Rdiv. rewrite !Rmult_0_l, !Rplus_0_r, !Rminus_0_r.
+  unfold PC, pert_corr3, pert3. cbv zeta.
+  match goal with |- context [perturb_pva_lat _ _ _ _ _ _ _ _ _ (0 * ?a0) (0 * ?a1) (0 * ?a2) (0 * ?a3) (0 * ?a4) (0 * ?a5) (0 * ?a6) (0 * ?a7) (0 * ?a8)] =>
+    destruct (perturb_pva_zero lat lon alt VN VE VD roll pitch heading a0 a1 a2 a3 a4 a5 a6 a7 a8)
+      as [-> [-> [-> [-> [-> [-> [-> [-> ->]]]]]]]] end.
+  rewrite !Rmult_0_l.
   exact (proj1 (correct_zero_is_identity lat lon alt VN VE VD roll pitch heading Hroll Hpitch Hheading)).
 Qed.
 
@@ -2993,68 +3097,69 @@ Proof.
   - rewrite Hh0. ring.
 Qed.
 
-Ltac clean0E :=
-  repeat match goal with |- context [lat + 0 * ?E0 / ?K0 * (180 / PI)] =>
-    replace (lat + 0 * E0 / K0 * (180 / PI)) with lat by (unfold Rdiv; ring) end;
-  repeat match goal with |- context [lat + 0 * ?E0 * / ?K0 * (180 / PI)] =>
-    replace (lat + 0 * E0 * / K0 * (180 / PI)) with lat by (unfold Rdiv; ring) end;
-  repeat match goal with |- context [alt - 0 * ?E2] => replace (alt - 0 * E2) with alt by ring end;
-  repeat match goal with |- context [alt + - (0 * ?E2)] => replace (alt + - (0 * E2)) with alt by ring end;
-  repeat match goal with |- context [lat + - (0 * y0) / ?K0 * (180 / PI)] =>
-    replace (lat + - (0 * y0) / K0 * (180 / PI)) with lat by (unfold Rdiv; ring) end;
-  repeat match goal with |- context [lat + - (0 * y0) * / ?K0 * (180 / PI)] =>
-    replace (lat + - (0 * y0) * / K0 * (180 / PI)) with lat by (unfold Rdiv; ring) end;
-  repeat match goal with |- context [alt - - (0 * y2)] => replace (alt - - (0 * y2)) with alt by ring end;
-  repeat match goal with |- context [alt + - - (0 * y2)] => replace (alt + - - (0 * y2)) with alt by ring end.
-
+(* the position rows: after the perturbation the latitude / altitude are pl e / pa e (exactly), the correction is
+   characterised at that perturbed point, which stays inside the domain for small e *)
 Lemma rs3_north : is_derive (RS state_diff_north) 0 0.
 Proof.
-  unfold RS, restore3, state_diff_north. unfold pert_corr3, pert3. cbv zeta.
-  unfold correct3d_lat, correct3d_alt, perturb_pva_lat, perturb_pva_alt.
-  pose proof (rn_pos (lat * (PI/180)) alt Halt) as Hrn.
-  set (E0 := mvec 9 _ _ 0%nat). set (E2 := mvec 9 _ _ 2%nat).
-  match goal with |- is_derive (fun e => (lat + e * E0 / ?K0 * (180 / PI) + - (e * y0) / @?K1 e * (180 / PI) - lat) * @?Q e) 0 _ =>
-    apply (is_derive_ext (fun e => e * ((E0 * / K0 * (180 / PI) - y0 * / K1 e * (180 / PI)) * Q e)));
-    [ intro e; cbv beta; unfold Rdiv; eqR; ring | apply is_derive_e_times ]
-  end.
-  - autounfold with state_diff_db correct3d_db perturb_pva_db. auto_derive.
-    clean0E. rewrite ?Rplus_0_r. clean0E.
-    splits; try exact I; try (apply Rgt_not_eq); try (exact (W_pos' _)); try (exact (sqrtW_pos _));
-      exact Hrn.
-  - cbv beta. clean0E. rewrite ?Rplus_0_r. clean0E.
-    autounfold with state_diff_db correct3d_db perturb_pva_db.
-    subst E0 E2. unfE. ring.
+  assert (Halt' : -6000000 < alt) by lra.
+  unfold RS, restore3, pert_corr3, pert3. cbv zeta.
+  set (E0 := mvec 9 _ _ 0%nat). set (E1 := mvec 9 _ _ 1%nat). set (E2 := mvec 9 _ _ 2%nat).
+  set (pl := fun e : R => lat + e * E0 * KN lat alt). set (pa := fun e : R => alt - e * E2).
+  assert (Hpl : ex_derive pl 0) by (unfold pl; auto_derive; exact I).
+  assert (Hpa : ex_derive pa 0) by (unfold pa; auto_derive; exact I).
+  assert (Hloc : locally 0 (fun e => -90 < pl e < 90 /\ -6000000 < pa e < 1 + pa 0)).
+  { apply filter_and; apply locally_between; try assumption; unfold pl, pa; rewrite ?Rmult_0_l; lra. }
+  set (k1 := fun e : R => KN (pl e) (pa e)).
+  assert (Hk1 : ex_derive k1 0) by (apply KN_ex_derive; try assumption; unfold pa; rewrite Rmult_0_l; lra).
+  set (l2 := fun e : R => 1 / 2 * (pl e - e * y0 * k1 e + lat)).
+  set (a2 := fun e : R => 1 / 2 * (pa e + e * y2 + alt)).
+  assert (Hl2 : ex_derive l2 0) by (unfold l2; auto_derive; splits; try exact I; assumption).
+  assert (Ha2 : ex_derive a2 0) by (unfold a2; auto_derive; splits; try exact I; assumption).
+  pose proof (QN_ex_derive l2 a2 0 Hl2 Ha2) as Hq. set (q := fun e : R => QN (l2 e) (a2 e)) in *.
+  apply (is_derive_ext_loc (fun e => e * ((E0 * KN lat alt - y0 * k1 e) * q e))).
+  { revert Hloc. apply filter_imp. intros e [[B1 B2] [B3 _]].
+    rewrite state_diff_north_eq.
+    rewrite perturb_pva_lat_eq, perturb_pva_alt_eq by assumption. fold (pl e) (pa e).
+    rewrite correct3d_lat_eq, correct3d_alt_eq by (first [split; assumption | assumption]).
+    unfold q, l2, a2, k1, pl, pa. eqR. ring. }
+  apply is_derive_e_times.
+  - auto_derive. splits; try exact I; assumption.
+  - unfold k1, pl, pa. rewrite !Rmult_0_l, Rplus_0_r, Rminus_0_r.
+    replace (E0 * KN lat alt - y0 * KN lat alt) with 0; [ring|]. subst E0. unfE. ring.
 Qed.
 
 Lemma rs3_east : is_derive (RS state_diff_east) 0 0.
 Proof.
-  unfold RS, restore3, state_diff_east. unfold pert_corr3, pert3. cbv zeta.
-  unfold correct3d_lat, correct3d_lon, correct3d_alt, perturb_pva_lat, perturb_pva_lon, perturb_pva_alt.
-  pose proof (rn_pos (lat * (PI/180)) alt Halt) as Hrn.
-  pose proof (re_pos (lat * (PI/180)) alt Halt) as Hre.
-  pose proof (cos_d2r_pos lat Hlat) as Hcos.
-  assert (Hs : sqrt (1 - sin (lat * (PI/180)) * sin (lat * (PI/180))) = cos (lat * (PI/180)))
-    by (apply sqrt_1msin2; lra).
+  assert (Halt' : -6000000 < alt) by lra.
+  unfold RS, restore3, pert_corr3, pert3. cbv zeta.
   set (E0 := mvec 9 _ _ 0%nat). set (E1 := mvec 9 _ _ 1%nat). set (E2 := mvec 9 _ _ 2%nat).
-  match goal with |- is_derive (fun e => (lon + e * E1 / ?K0 * (180 / PI) + - (e * y1) / @?K1 e * (180 / PI) - lon) * @?Q e) 0 _ =>
-    apply (is_derive_ext (fun e => e * ((E1 * / K0 * (180 / PI) - y1 * / K1 e * (180 / PI)) * Q e)));
-    [ intro e; cbv beta; unfold Rdiv; eqR; ring | apply is_derive_e_times ]
-  end.
-  - autounfold with state_diff_db correct3d_db perturb_pva_db. auto_derive.
-    clean0E. rewrite ?Rplus_0_r. clean0E.
-    replace (1 / 2 * (lat + lat)) with lat by field.
-    assert (Hc2 : 0 < 1 + - (sin (lat * (PI / 180)) * sin (lat * (PI / 180))))
-      by (pose proof (sc1 (lat * (PI / 180))); nra).
-    assert (Hk : (6378137 * / sqrt (1 + - (66943799901413 / 10000000000000000 *
-                   (sin (lat * (PI / 180)) * sin (lat * (PI / 180))))) + alt) *
-                 sqrt (1 + - (sin (lat * (PI / 180)) * sin (lat * (PI / 180)))) <> 0).
-    { apply Rmult_integral_contrapositive_currified; apply Rgt_not_eq; [exact Hre|].
-      apply sqrt_lt_R0. exact Hc2. }
-    splits; try exact I; try exact Hc2; try exact Hk;
-      try (apply Rgt_not_eq); try (exact (W_pos' _)); try (exact (sqrtW_pos _)); try exact Hrn.
-  - cbv beta. clean0E. rewrite ?Rplus_0_r. clean0E.
-    autounfold with state_diff_db correct3d_db perturb_pva_db.
-    subst E0 E1 E2. unfE. try eqR. ring.
+  set (pl := fun e : R => lat + e * E0 * KN lat alt). set (pa := fun e : R => alt - e * E2).
+  assert (Hpl : ex_derive pl 0) by (unfold pl; auto_derive; exact I).
+  assert (Hpa : ex_derive pa 0) by (unfold pa; auto_derive; exact I).
+  assert (Hloc : locally 0 (fun e => -90 < pl e < 90 /\ -6000000 < pa e < 1 + pa 0)).
+  { apply filter_and; apply locally_between; try assumption; unfold pl, pa; rewrite ?Rmult_0_l; lra. }
+  assert (Hpl0 : -90 < pl 0 < 90) by (unfold pl; rewrite !Rmult_0_l; lra).
+  assert (Hpa0 : -6000000 < pa 0) by (unfold pa; rewrite Rmult_0_l; lra).
+  set (k1 := fun e : R => KN (pl e) (pa e)).
+  assert (Hk1 : ex_derive k1 0) by (apply KN_ex_derive; assumption).
+  set (k2 := fun e : R => KE (pl e) (pa e)).
+  assert (Hk2 : ex_derive k2 0) by (apply KE_ex_derive; assumption).
+  set (l2 := fun e : R => 1 / 2 * (pl e - e * y0 * k1 e + lat)).
+  set (a2 := fun e : R => 1 / 2 * (pa e + e * y2 + alt)).
+  assert (Hl2 : ex_derive l2 0) by (unfold l2; auto_derive; splits; try exact I; assumption).
+  assert (Ha2 : ex_derive a2 0) by (unfold a2; auto_derive; splits; try exact I; assumption).
+  assert (Hl20 : -90 < l2 0 < 90) by (unfold l2; rewrite !Rmult_0_l; lra).
+  pose proof (QE_ex_derive l2 a2 0 Hl20 Hl2 Ha2) as Hq. set (q := fun e : R => QE (l2 e) (a2 e)) in *.
+  apply (is_derive_ext_loc (fun e => e * ((E1 * KE lat alt - y1 * k2 e) * q e))).
+  { revert Hloc. apply filter_imp. intros e [[B1 B2] [B3 _]].
+    rewrite state_diff_east_eq.
+    rewrite perturb_pva_lat_eq, perturb_pva_lon_eq, perturb_pva_alt_eq by assumption. fold (pl e) (pa e).
+    rewrite correct3d_lat_eq, correct3d_lon_eq, correct3d_alt_eq by (first [split; assumption | assumption]).
+    unfold q, l2, a2, k1, k2, pl, pa. eqR. ring. }
+  apply is_derive_e_times.
+  - auto_derive. splits; try exact I; assumption.
+  - unfold k2, pl, pa. rewrite !Rmult_0_l, Rplus_0_r, Rminus_0_r.
+    replace (E1 * KE lat alt - y1 * KE lat alt) with 0; [ring|]. subst E1. unfE. ring.
 Qed.
 End Restore3D.
 
@@ -3118,7 +3223,11 @@ Lemma pc2_at0 :
   PC correct2d_VN 0 = VN /\ PC correct2d_VE 0 = VE /\ PC correct2d_VD 0 = VD /\
   PC correct2d_roll 0 = roll /\ PC correct2d_pitch 0 = pitch /\ PC correct2d_heading 0 = heading.
 Proof.
-  unfP. unfold Rdiv. rewrite !Rmult_0_l, !Rplus_0_r, !Rminus_0_r.
+  unfold PC, pert_corr2, pert2. cbv zeta.
+  match goal with |- context [perturb_pva_lat _ _ _ _ _ _ _ _ _ (0 * ?a0) (0 * ?a1) (0 * ?a2) (0 * ?a3) (0 * ?a4) (0 * ?a5) (0 * ?a6) (0 * ?a7) (0 * ?a8)] =>
+    destruct (perturb_pva_zero lat lon alt VN VE VD roll pitch heading a0 a1 a2 a3 a4 a5 a6 a7 a8)
+      as [-> [-> [-> [-> [-> [-> [-> [-> ->]]]]]]]] end.
+  rewrite !Rmult_0_l.
   exact (proj2 (correct_zero_is_identity lat lon alt VN VE VD roll pitch heading Hroll Hpitch Hheading)).
 Qed.
 
@@ -3247,68 +3356,69 @@ Proof.
   - rewrite Hh0. ring.
 Qed.
 
-Ltac clean0E :=
-  repeat match goal with |- context [lat + 0 * ?E0 / ?K0 * (180 / PI)] =>
-    replace (lat + 0 * E0 / K0 * (180 / PI)) with lat by (unfold Rdiv; ring) end;
-  repeat match goal with |- context [lat + 0 * ?E0 * / ?K0 * (180 / PI)] =>
-    replace (lat + 0 * E0 * / K0 * (180 / PI)) with lat by (unfold Rdiv; ring) end;
-  repeat match goal with |- context [alt - 0 * ?E2] => replace (alt - 0 * E2) with alt by ring end;
-  repeat match goal with |- context [alt + - (0 * ?E2)] => replace (alt + - (0 * E2)) with alt by ring end;
-  repeat match goal with |- context [lat + - (0 * y0) / ?K0 * (180 / PI)] =>
-    replace (lat + - (0 * y0) / K0 * (180 / PI)) with lat by (unfold Rdiv; ring) end;
-  repeat match goal with |- context [lat + - (0 * y0) * / ?K0 * (180 / PI)] =>
-    replace (lat + - (0 * y0) * / K0 * (180 / PI)) with lat by (unfold Rdiv; ring) end;
-  repeat match goal with |- context [alt - - (0 * y2)] => replace (alt - - (0 * y2)) with alt by ring end;
-  repeat match goal with |- context [alt + - - (0 * y2)] => replace (alt + - - (0 * y2)) with alt by ring end.
-
+(* the position rows: after the perturbation the latitude / altitude are pl e / pa e (exactly), the correction is
+   characterised at that perturbed point, which stays inside the domain for small e *)
 Lemma rs2_north : is_derive (RS state_diff_north) 0 0.
 Proof.
-  unfold RS, restore2, state_diff_north. unfold pert_corr2, pert2. cbv zeta.
-  unfold correct2d_lat, correct2d_alt, perturb_pva_lat, perturb_pva_alt.
-  pose proof (rn_pos (lat * (PI/180)) alt Halt) as Hrn.
-  set (E0 := mvec 7 _ _ 0%nat). set (E2 := mvec 7 _ _ 2%nat).
-  match goal with |- is_derive (fun e => (lat + e * E0 / ?K0 * (180 / PI) + - (e * y0) / @?K1 e * (180 / PI) - lat) * @?Q e) 0 _ =>
-    apply (is_derive_ext (fun e => e * ((E0 * / K0 * (180 / PI) - y0 * / K1 e * (180 / PI)) * Q e)));
-    [ intro e; cbv beta; unfold Rdiv; eqR; ring | apply is_derive_e_times ]
-  end.
-  - autounfold with state_diff_db correct2d_db perturb_pva_db. auto_derive.
-    clean0E. rewrite ?Rplus_0_r. clean0E.
-    splits; try exact I; try (apply Rgt_not_eq); try (exact (W_pos' _)); try (exact (sqrtW_pos _));
-      exact Hrn.
-  - cbv beta. clean0E. rewrite ?Rplus_0_r. clean0E.
-    autounfold with state_diff_db correct2d_db perturb_pva_db.
-    subst E0 E2. unfE. ring.
+  assert (Halt' : -6000000 < alt) by lra.
+  unfold RS, restore2, pert_corr2, pert2. cbv zeta.
+  set (E0 := mvec 7 _ _ 0%nat). set (E1 := mvec 7 _ _ 1%nat). set (E2 := mvec 7 _ _ 2%nat).
+  set (pl := fun e : R => lat + e * E0 * KN lat alt). set (pa := fun e : R => alt - e * E2).
+  assert (Hpl : ex_derive pl 0) by (unfold pl; auto_derive; exact I).
+  assert (Hpa : ex_derive pa 0) by (unfold pa; auto_derive; exact I).
+  assert (Hloc : locally 0 (fun e => -90 < pl e < 90 /\ -6000000 < pa e < 1 + pa 0)).
+  { apply filter_and; apply locally_between; try assumption; unfold pl, pa; rewrite ?Rmult_0_l; lra. }
+  set (k1 := fun e : R => KN (pl e) (pa e)).
+  assert (Hk1 : ex_derive k1 0) by (apply KN_ex_derive; try assumption; unfold pa; rewrite Rmult_0_l; lra).
+  set (l2 := fun e : R => 1 / 2 * (pl e - e * y0 * k1 e + lat)).
+  set (a2 := fun e : R => 1 / 2 * (pa e + alt)).
+  assert (Hl2 : ex_derive l2 0) by (unfold l2; auto_derive; splits; try exact I; assumption).
+  assert (Ha2 : ex_derive a2 0) by (unfold a2; auto_derive; splits; try exact I; assumption).
+  pose proof (QN_ex_derive l2 a2 0 Hl2 Ha2) as Hq. set (q := fun e : R => QN (l2 e) (a2 e)) in *.
+  apply (is_derive_ext_loc (fun e => e * ((E0 * KN lat alt - y0 * k1 e) * q e))).
+  { revert Hloc. apply filter_imp. intros e [[B1 B2] [B3 _]].
+    rewrite state_diff_north_eq.
+    rewrite perturb_pva_lat_eq, perturb_pva_alt_eq by assumption. fold (pl e) (pa e).
+    rewrite correct2d_lat_eq, correct2d_alt_eq by (first [split; assumption | assumption]).
+    unfold q, l2, a2, k1, pl, pa. eqR. ring. }
+  apply is_derive_e_times.
+  - auto_derive. splits; try exact I; assumption.
+  - unfold k1, pl, pa. rewrite !Rmult_0_l, Rplus_0_r, Rminus_0_r.
+    replace (E0 * KN lat alt - y0 * KN lat alt) with 0; [ring|]. subst E0. unfE. ring.
 Qed.
 
 Lemma rs2_east : is_derive (RS state_diff_east) 0 0.
 Proof.
-  unfold RS, restore2, state_diff_east. unfold pert_corr2, pert2. cbv zeta.
-  unfold correct2d_lat, correct2d_lon, correct2d_alt, perturb_pva_lat, perturb_pva_lon, perturb_pva_alt.
-  pose proof (rn_pos (lat * (PI/180)) alt Halt) as Hrn.
-  pose proof (re_pos (lat * (PI/180)) alt Halt) as Hre.
-  pose proof (cos_d2r_pos lat Hlat) as Hcos.
-  assert (Hs : sqrt (1 - sin (lat * (PI/180)) * sin (lat * (PI/180))) = cos (lat * (PI/180)))
-    by (apply sqrt_1msin2; lra).
+  assert (Halt' : -6000000 < alt) by lra.
+  unfold RS, restore2, pert_corr2, pert2. cbv zeta.
   set (E0 := mvec 7 _ _ 0%nat). set (E1 := mvec 7 _ _ 1%nat). set (E2 := mvec 7 _ _ 2%nat).
-  match goal with |- is_derive (fun e => (lon + e * E1 / ?K0 * (180 / PI) + - (e * y1) / @?K1 e * (180 / PI) - lon) * @?Q e) 0 _ =>
-    apply (is_derive_ext (fun e => e * ((E1 * / K0 * (180 / PI) - y1 * / K1 e * (180 / PI)) * Q e)));
-    [ intro e; cbv beta; unfold Rdiv; eqR; ring | apply is_derive_e_times ]
-  end.
-  - autounfold with state_diff_db correct2d_db perturb_pva_db. auto_derive.
-    clean0E. rewrite ?Rplus_0_r. clean0E.
-    replace (1 / 2 * (lat + lat)) with lat by field.
-    assert (Hc2 : 0 < 1 + - (sin (lat * (PI / 180)) * sin (lat * (PI / 180))))
-      by (pose proof (sc1 (lat * (PI / 180))); nra).
-    assert (Hk : (6378137 * / sqrt (1 + - (66943799901413 / 10000000000000000 *
-                   (sin (lat * (PI / 180)) * sin (lat * (PI / 180))))) + alt) *
-                 sqrt (1 + - (sin (lat * (PI / 180)) * sin (lat * (PI / 180)))) <> 0).
-    { apply Rmult_integral_contrapositive_currified; apply Rgt_not_eq; [exact Hre|].
-      apply sqrt_lt_R0. exact Hc2. }
-    splits; try exact I; try exact Hc2; try exact Hk;
-      try (apply Rgt_not_eq); try (exact (W_pos' _)); try (exact (sqrtW_pos _)); try exact Hrn.
-  - cbv beta. clean0E. rewrite ?Rplus_0_r. clean0E.
-    autounfold with state_diff_db correct2d_db perturb_pva_db.
-    subst E0 E1 E2. unfE. try eqR. ring.
+  set (pl := fun e : R => lat + e * E0 * KN lat alt). set (pa := fun e : R => alt - e * E2).
+  assert (Hpl : ex_derive pl 0) by (unfold pl; auto_derive; exact I).
+  assert (Hpa : ex_derive pa 0) by (unfold pa; auto_derive; exact I).
+  assert (Hloc : locally 0 (fun e => -90 < pl e < 90 /\ -6000000 < pa e < 1 + pa 0)).
+  { apply filter_and; apply locally_between; try assumption; unfold pl, pa; rewrite ?Rmult_0_l; lra. }
+  assert (Hpl0 : -90 < pl 0 < 90) by (unfold pl; rewrite !Rmult_0_l; lra).
+  assert (Hpa0 : -6000000 < pa 0) by (unfold pa; rewrite Rmult_0_l; lra).
+  set (k1 := fun e : R => KN (pl e) (pa e)).
+  assert (Hk1 : ex_derive k1 0) by (apply KN_ex_derive; assumption).
+  set (k2 := fun e : R => KE (pl e) (pa e)).
+  assert (Hk2 : ex_derive k2 0) by (apply KE_ex_derive; assumption).
+  set (l2 := fun e : R => 1 / 2 * (pl e - e * y0 * k1 e + lat)).
+  set (a2 := fun e : R => 1 / 2 * (pa e + alt)).
+  assert (Hl2 : ex_derive l2 0) by (unfold l2; auto_derive; splits; try exact I; assumption).
+  assert (Ha2 : ex_derive a2 0) by (unfold a2; auto_derive; splits; try exact I; assumption).
+  assert (Hl20 : -90 < l2 0 < 90) by (unfold l2; rewrite !Rmult_0_l; lra).
+  pose proof (QE_ex_derive l2 a2 0 Hl20 Hl2 Ha2) as Hq. set (q := fun e : R => QE (l2 e) (a2 e)) in *.
+  apply (is_derive_ext_loc (fun e => e * ((E1 * KE lat alt - y1 * k2 e) * q e))).
+  { revert Hloc. apply filter_imp. intros e [[B1 B2] [B3 _]].
+    rewrite state_diff_east_eq.
+    rewrite perturb_pva_lat_eq, perturb_pva_lon_eq, perturb_pva_alt_eq by assumption. fold (pl e) (pa e).
+    rewrite correct2d_lat_eq, correct2d_lon_eq, correct2d_alt_eq by (first [split; assumption | assumption]).
+    unfold q, l2, a2, k1, k2, pl, pa. eqR. ring. }
+  apply is_derive_e_times.
+  - auto_derive. splits; try exact I; assumption.
+  - unfold k2, pl, pa. rewrite !Rmult_0_l, Rplus_0_r, Rminus_0_r.
+    replace (E1 * KE lat alt - y1 * KE lat alt) with 0; [ring|]. subst E1. unfE. ring.
 Qed.
 End Restore2D.
 
@@ -3426,6 +3536,25 @@ Definition diff_of_perturbed
     (P perturb_pva_VD) (P perturb_pva_roll) (P perturb_pva_pitch) (P perturb_pva_heading)
     lat lon alt VN VE VD roll pitch heading.
 
+Lemma recovers_north lat lon alt VN VE VD roll pitch heading E0 E1 E2 E3 E4 E5 E6 E7 E8 :
+  -90 < lat < 90 -> -1000000 <= alt ->
+  is_derive (diff_of_perturbed state_diff_north lat lon alt VN VE VD roll pitch heading E0 E1 E2 E3 E4 E5 E6 E7 E8) 0 E0 /\
+  is_derive (diff_of_perturbed state_diff_east lat lon alt VN VE VD roll pitch heading E0 E1 E2 E3 E4 E5 E6 E7 E8) 0 E1.
+Proof.
+  intros Hlat Halt. assert (Halt' : -6000000 < alt) by lra.
+  unfold diff_of_perturbed. cbv zeta. split.
+  - apply (is_derive_ext (fun e => e * (E0 * KN lat alt *
+             QN (1 / 2 * (lat + e * E0 * KN lat alt + lat)) (1 / 2 * (alt - e * E2 + alt))))).
+    { intro e. rewrite state_diff_north_eq, perturb_pva_lat_eq, perturb_pva_alt_eq by assumption. eqR. ring. }
+    apply is_derive_north; try exact Halt'; affine_side.
+  - apply (is_derive_ext (fun e => e * (E1 * KE lat alt *
+             QE (1 / 2 * (lat + e * E0 * KN lat alt + lat)) (1 / 2 * (alt - e * E2 + alt))))).
+    { intro e. rewrite state_diff_east_eq, perturb_pva_lat_eq, perturb_pva_lon_eq, perturb_pva_alt_eq by assumption.
+      eqR. ring. }
+    apply is_derive_east; try exact Halt'; try exact Hlat; affine_side.
+Qed.
+
+
 Lemma state_diff_recovers_perturbation lat lon alt VN VE VD roll pitch heading E0 E1 E2 E3 E4 E5 E6 E7 E8 :
   -90 < lat < 90 -> -1000000 <= alt ->
   let D := fun d => diff_of_perturbed d lat lon alt VN VE VD roll pitch heading E0 E1 E2 E3 E4 E5 E6 E7 E8 in
@@ -3436,52 +3565,10 @@ Lemma state_diff_recovers_perturbation lat lon alt VN VE VD roll pitch heading E
   is_derive (D state_diff_heading) 0 E8.
 Proof.
   intros Hlat Halt. cbv zeta.
-  pose proof (rn_pos (lat * (PI/180)) alt Halt) as Hrn.
-  pose proof (re_pos (lat * (PI/180)) alt Halt) as Hre.
-  pose proof (cos_d2r_pos lat Hlat) as Hcos.
-  assert (Hs : sqrt (1 - sin (lat * (PI/180)) * sin (lat * (PI/180))) = cos (lat * (PI/180)))
-    by (apply sqrt_1msin2; lra).
-  pose proof PI_neq0 as Hpi.
+  destruct (recovers_north lat lon alt VN VE VD roll pitch heading E0 E1 E2 E3 E4 E5 E6 E7 E8 Hlat Halt) as [HN HE].
   splits.
-  - unfold diff_of_perturbed, state_diff_north, perturb_pva_lat, perturb_pva_alt. cbv zeta.
-    match goal with |- is_derive (fun e => (lat + e * E0 / ?K * (180 / PI) - lat) * _) 0 _ =>
-      set (k := K) in * end.
-    match goal with |- is_derive (fun e => (lat + e * E0 / k * (180 / PI) - lat) * @?Q e) 0 _ =>
-      apply (is_derive_ext (fun e => e * (E0 * / k * (180 / PI) * Q e)));
-      [ intro e; cbv beta; unfold Rdiv; eqR; ring | apply is_derive_e_times ]
-    end.
-    + autounfold with state_diff_db. auto_derive.
-      splits; try exact I; try (apply Rgt_not_eq); try (exact (W_pos' _)); try (exact (sqrtW_pos _)).
-    + cbv beta. autounfold with state_diff_db.
-      replace (lat + 0 * E0 / k * (180 / PI)) with lat by (unfold Rdiv; ring).
-      replace (alt - 0 * E2) with alt by ring.
-      replace (1 / 2 * (lat + lat)) with lat by field.
-      replace (1 / 2 * (alt + alt)) with alt by field.
-      subst k. autounfold with perturb_pva_db.
-      match type of Hrn with 0 < ?r + alt => set (rn := r) in * end.
-      field. split; [assumption | lra].
-  - unfold diff_of_perturbed, state_diff_east, perturb_pva_lat, perturb_pva_lon, perturb_pva_alt. cbv zeta.
-    match goal with |- is_derive (fun e => (lon + e * E1 / ?K * (180 / PI) - lon) * _) 0 _ =>
-      set (k := K) in * end.
-    match goal with |- is_derive (fun e => (lon + e * E1 / k * (180 / PI) - lon) * @?Q e) 0 _ =>
-      apply (is_derive_ext (fun e => e * (E1 * / k * (180 / PI) * Q e)));
-      [ intro e; cbv beta; unfold Rdiv; eqR; ring | apply is_derive_e_times ]
-    end.
-    + autounfold with state_diff_db. auto_derive.
-      match goal with |- context [lat + 0 * E0 * / ?K0 * (180 / PI)] =>
-        replace (lat + 0 * E0 * / K0 * (180 / PI)) with lat by (unfold Rdiv; ring) end.
-      replace (1 / 2 * (lat + lat)) with lat by field.
-      splits; try exact I; try (apply Rgt_not_eq); try (exact (W_pos' _)); try (exact (sqrtW_pos _)).
-      pose proof (sc1 (lat * (PI / 180))). nra.
-    + cbv beta. autounfold with state_diff_db.
-      match goal with |- context [lat + 0 * E0 / ?K0 * (180 / PI)] =>
-        replace (lat + 0 * E0 / K0 * (180 / PI)) with lat by (unfold Rdiv; ring) end.
-      replace (alt - 0 * E2) with alt by ring.
-      replace (1 / 2 * (lat + lat)) with lat by field.
-      replace (1 / 2 * (alt + alt)) with alt by field.
-      subst k. autounfold with perturb_pva_db. rewrite Hs.
-      match type of Hre with 0 < ?r + alt => set (re := r) in * end.
-      field. splits; try assumption; lra.
+  - exact HN.
+  - exact HE.
   - unfold diff_of_perturbed, state_diff_down, perturb_pva_alt. cbv zeta. auto_derive; [exact I|]. ring.
   - unfold diff_of_perturbed, state_diff_VN, perturb_pva_VN. cbv zeta. auto_derive; [exact I|]. ring.
   - unfold diff_of_perturbed, state_diff_VE, perturb_pva_VE. cbv zeta. auto_derive; [exact I|]. ring.
@@ -3606,36 +3693,32 @@ Lemma sim_injected_error_pos lat lon alt VN VE VD roll pitch heading sd n0 n1 n2
   (forall k, (k < 2)%nat ->
      is_derive (simZ_pos2d lat lon alt VN VE VD roll pitch heading sd n0 n1 n2 k) 0 (- vec3 n0 n1 n2 k)).
 Proof.
-  intros Hlat Halt.
-  pose proof (rn_pos (lat * (PI/180)) alt Halt) as Hrn.
-  pose proof (re_pos (lat * (PI/180)) alt Halt) as Hre.
-  pose proof (cos_d2r_pos lat Hlat) as Hcos.
-  assert (Hs : sqrt (1 - sin (lat * (PI/180)) * sin (lat * (PI/180))) = cos (lat * (PI/180)))
-    by (apply sqrt_1msin2; lra).
-  pose proof PI_neq0 as Hpi.
-  assert (Hc2 : 0 < 1 + - (sin (lat * (PI / 180)) * sin (lat * (PI / 180))))
-    by (pose proof (sc1 (lat * (PI / 180))); nra).
-  split; intros k Hk; idx k; cbv [simZ_pos3d simZ_pos2d vec3];
-    unfold pos3d_z0, pos3d_z1, pos3d_z2, pos2d_z0, pos2d_z1, sim_pos_lat, sim_pos_lon, sim_pos_alt;
-    try (auto_derive; [exact I|]; ring);
-    (match goal with
-     | |- is_derive (fun s => (?c - (?c + s * ?n / ?K * (180 / PI))) * (PI / 180) * @?Q s) 0 _ =>
-         apply (is_derive_ext (fun s => s * (- n * / K * (180 / PI) * (PI / 180) * Q s)));
-         [ intro s; cbv beta; unfold Rdiv; eqR; ring | apply is_derive_e_times ]
-     end;
-     [ autounfold with pos3d_db pos2d_db sim_pos_db; auto_derive;
-       repeat match goal with |- context [lat + 0 * n0 * / ?K0 * (180 / PI)] =>
-         replace (lat + 0 * n0 * / K0 * (180 / PI)) with lat by (unfold Rdiv; ring) end;
-       replace (1 / 2 * (lat + lat)) with lat by field;
-       splits; try exact I; try exact Hc2; try (apply Rgt_not_eq); try (exact (W_pos' _)); try (exact (sqrtW_pos _))
-     | cbv beta; autounfold with pos3d_db pos2d_db sim_pos_db;
-       repeat match goal with |- context [lat + 0 * n0 / ?K0 * (180 / PI)] =>
-         replace (lat + 0 * n0 / K0 * (180 / PI)) with lat by (unfold Rdiv; ring) end;
-       replace (alt - 0 * n2) with alt by ring;
-       replace (1 / 2 * (lat + lat)) with lat by field;
-       replace (1 / 2 * (alt + alt)) with alt by field;
-       rewrite ?Hs;
-       match type of Hrn with 0 < ?r + alt => set (rn := r) in * end;
-       match type of Hre with 0 < ?r + alt => set (re := r) in * end;
-       field; splits; try assumption; lra ]).
+  intros Hlat Halt. assert (Halt' : -6000000 < alt) by lra.
+  pose proof (fun m1 m2 m3 k H => residual_form_pos3d lat lon alt VN VE VD roll pitch heading m1 m2 m3 sd k H) as R3.
+  pose proof (fun m1 m2 m3 k H => residual_form_pos2d lat lon alt VN VE VD roll pitch heading m1 m2 m3 sd k H) as R2.
+  split; intros k Hk; idx k; cbv [simZ_pos3d simZ_pos2d vec3].
+  - apply (is_derive_ext (fun s => s * (- n0 * KN lat alt *
+             QN (1 / 2 * (lat + (lat + s * n0 * KN lat alt))) (1 / 2 * (alt + (alt - s * n2)))))).
+    { intro s. rewrite (R3 _ _ _ 0%nat ltac:(lia)). cbv [lla_diff].
+      rewrite lla_diff0_eq, sim_pos_lat_eq, sim_pos_alt_eq by assumption. eqR. ring. }
+    apply is_derive_north; try exact Halt'; affine_side.
+  - apply (is_derive_ext (fun s => s * (- n1 * KE lat alt *
+             QE (1 / 2 * (lat + (lat + s * n0 * KN lat alt))) (1 / 2 * (alt + (alt - s * n2)))))).
+    { intro s. rewrite (R3 _ _ _ 1%nat ltac:(lia)). cbv [lla_diff].
+      rewrite lla_diff1_eq, sim_pos_lat_eq, sim_pos_lon_eq, sim_pos_alt_eq by assumption. eqR. ring. }
+    apply is_derive_east; try exact Halt'; try exact Hlat; affine_side.
+  - apply (is_derive_ext (fun s => - (s * n2))).
+    { intro s. rewrite (R3 _ _ _ 2%nat ltac:(lia)). cbv [lla_diff].
+      rewrite lla_diff2_eq, sim_pos_alt_eq by assumption. eqR. ring. }
+    auto_derive; [exact I | ring].
+  - apply (is_derive_ext (fun s => s * (- n0 * KN lat alt *
+             QN (1 / 2 * (lat + (lat + s * n0 * KN lat alt))) (1 / 2 * (alt + (alt - s * n2)))))).
+    { intro s. rewrite (R2 _ _ _ 0%nat ltac:(lia)). cbv [lla_diff].
+      rewrite lla_diff0_eq, sim_pos_lat_eq, sim_pos_alt_eq by assumption. eqR. ring. }
+    apply is_derive_north; try exact Halt'; affine_side.
+  - apply (is_derive_ext (fun s => s * (- n1 * KE lat alt *
+             QE (1 / 2 * (lat + (lat + s * n0 * KN lat alt))) (1 / 2 * (alt + (alt - s * n2)))))).
+    { intro s. rewrite (R2 _ _ _ 1%nat ltac:(lia)). cbv [lla_diff].
+      rewrite lla_diff1_eq, sim_pos_lat_eq, sim_pos_lon_eq, sim_pos_alt_eq by assumption. eqR. ring. }
+    apply is_derive_east; try exact Halt'; try exact Hlat; affine_side.
 Qed.
